@@ -817,7 +817,7 @@ Section HasRight.
   Qed.
 
   Lemma has_right_spec t : forall p key,
-    slotcan t -> pv H p t -> res_along p key -> ulen t (length key) ->
+    slotcan t -> pv H p t -> (res_along p key \/ exists b0, has_right p key = TOk b0) -> ulen t (length key) ->
     (key = [] \/ valid_key key) ->
     exists b, has_right p key = TOk b /\ (b = true <-> has_gt t key).
   Proof.
@@ -829,14 +829,14 @@ Section HasRight.
       rewrite slice_lt_nil_r in Lt. discriminate.
     - (* short *)
       destruct Hs as [?|[[? ?]|Hcan]]; try discriminate.
-      inversion Hp as [| |t0 e Hw Ee Le|k0 c0 x Hc|]; subst; [destruct Hr|].
+      inversion Hp as [| |t0 e Hw Ee Le|k0 c0 x Hc|]; subst; [destruct Hr as [[]|[? Hx]]; discriminate|].
       destruct (can_has_key _ Hcan) as (kx & vx & _ & Lx).
       assert (Hkeys : forall k v, lk (NShort nk c') k = Some v -> exists r, k = nk ++ r /\ lk c' r = Some v).
       { intros k v L. rewrite lk_short in L. destruct (strip nk k) as [r|] eqn:E; [|discriminate].
         apply strip_some in E. eauto. }
       cbn [has_right res_along] in *. pose proof (is_prefix_strip nk key) as Sp.
       destruct (strip nk key) as [rest|] eqn:E.
-      + destruct Sp as [S1 S2]. rewrite S1 in *. rewrite S2 in *. cbn [negb].
+      + destruct Sp as [S1 S2]. rewrite S1 in *. rewrite S2 in *. cbn [negb] in Hr |- *.
         apply strip_some in E. subst key.
         assert (Hs' : slotcan c').
         { destruct (can_short_inv _ _ Hcan) as [[_ [v ->]]|(_ & _ & cs & -> & Hc')]; [right; left; eauto|right; right; exact Hc']. }
@@ -862,14 +862,14 @@ Section HasRight.
           rewrite slice_lt_mismatch in Lt; assumption.
     - (* branch *)
       destruct Hs as [?|[[? ?]|Hcan]]; try discriminate.
-      inversion Hp as [| |t0 e Hw Ee Le| |cs0 cs1 Hl Hcs]; subst; [destruct Hr|].
+      inversion Hp as [| |t0 e Hw Ee Le| |cs0 cs1 Hl Hcs]; subst; [destruct Hr as [[]|[? Hx]]; discriminate|].
       destruct (can_full_inv _ Hcan) as (L17 & Hch & Hv16 & _).
       destruct (can_has_key _ Hcan) as (kx & vx & Vkx & Lx).
       destruct key as [|k0 kr].
       { specialize (Hu _ _ Lx). destruct kx; [destruct Vkx|discriminate]. }
       destruct Hk as [?|Hk]; [discriminate|].
       pose proof (valid_key_hd_le _ _ Hk) as Hk0.
-      rewrite has_right_full. rewrite res_along_full in Hr.
+      rewrite has_right_full. rewrite res_along_full, has_right_full in Hr.
       destruct (any_from 0 (N.to_nat k0 + 1) 16 cs0) eqn:A.
       + exists true. split; [reflexivity|]. split; [|reflexivity]. intros _.
         apply any_from_spec in A. destruct A as (j & c & Ej & Rj & Nej).
@@ -1027,7 +1027,7 @@ Section Edge.
       destruct (proof_to_path db r None first true) as [[root val]|e]; [|discriminate].
       cbn [ptp_post] in Q. destruct Q as (Q1 & Q2 & Q3 & Q4 & _).
       destruct val as [v|]; [discriminate|].
-      destruct (has_right_spec H H_len t root hk (or_intror (or_intror Hcan)) Q1 Q4 Hulen
+      destruct (has_right_spec H H_len t root hk (or_intror (or_intror Hcan)) Q1 (or_introl Q4) Hulen
                   (or_intror (keybytes_to_hex_valid _ Hfirst))) as (b0 & Eb & Hb).
       fold hk. rewrite Eb. destruct b0; [discriminate|]. intros E. inversion E; subst b.
       split; [reflexivity|]. apply none_from_iff. split; [symmetry; exact Q3|].
@@ -1043,7 +1043,7 @@ Section Edge.
       destruct (ptp_root first true Hfirst) as [[G _]|[_ Q]]; [congruence|].
       destruct (proof_to_path db r None first true) as [[root val]|e]; cbn [ptp_post] in Q.
       - destruct Q as (Q1 & Q2 & Q3 & Q4 & _). fold hk in Q3. rewrite Hl in Q3. subst val.
-        destruct (has_right_spec H H_len t root hk (or_intror (or_intror Hcan)) Q1 Q4 Hulen
+        destruct (has_right_spec H H_len t root hk (or_intror (or_intror Hcan)) Q1 (or_introl Q4) Hulen
                     (or_intror (keybytes_to_hex_valid _ Hfirst))) as (b0 & Eb & Hb).
         fold hk. rewrite Eb. destruct b0; [|reflexivity]. exfalso. apply Hg. apply Hb. reflexivity.
       - exfalso. destruct Q as [[_ M]|(_ & A & _)]; [exact (Hm M)|discriminate].
@@ -1062,7 +1062,7 @@ Section Edge.
       cbn [ptp_post] in Q. destruct Q as (Q1 & Q2 & Q3 & Q4 & Q5).
       destruct val as [w|]; [|exfalso; apply Q5; reflexivity].
       destruct (bytes_eqb w (v0 :: v)) eqn:B; [|discriminate]. apply bytes_eqb_eq in B. subst w. cbn [negb].
-      destruct (has_right_spec H H_len t root hk (or_intror (or_intror Hcan)) Q1 Q4 Hulen
+      destruct (has_right_spec H H_len t root hk (or_intror (or_intror Hcan)) Q1 (or_introl Q4) Hulen
                   (or_intror (keybytes_to_hex_valid _ Hfirst))) as (b0 & Eb & Hb).
       fold hk. rewrite Eb. cbn [of_tres]. intros E. inversion E; subst b0.
       split; [symmetry; exact Q3|exact Hb].
@@ -1081,7 +1081,7 @@ Section Edge.
       destruct (proof_to_path db r None first false) as [[root val]|e]; cbn [ptp_post] in Q.
       - destruct Q as (Q1 & Q2 & Q3 & Q4 & Q5). fold hk in Q3. rewrite Hl in Q3. subst val.
         rewrite bytes_eqb_refl. cbn [negb].
-        destruct (has_right_spec H H_len t root hk (or_intror (or_intror Hcan)) Q1 Q4 Hulen
+        destruct (has_right_spec H H_len t root hk (or_intror (or_intror Hcan)) Q1 (or_introl Q4) Hulen
                     (or_intror (keybytes_to_hex_valid _ Hfirst))) as (b0 & Eb & Hb).
         fold hk. rewrite Eb. exists b0. split; [reflexivity|exact Hb].
       - exfalso. destruct Q as [[_ M]|(_ & _ & L)]; [exact (Hm M)|]. fold hk in L. congruence.
@@ -1387,7 +1387,7 @@ Proof.
       inversion Hw as [? v Vk0 Sk Hv|? ? Nk Ne Sk Hc|]; subst rk rv.
       - discriminate.
       - assert (Hrest : rest <> []).
-        { intros Er. rewrite Er, app_nil_r in Esp. rewrite Esp in Vk. eapply valid_key_not_nibbles; eassumption. }
+        { intros Er. rewrite Er, app_nil_r in Esp. rewrite Esp in Vk. exact (valid_key_not_nibbles _ Vk Nk). }
         rewrite Esp in Vk. destruct (valid_key_app_inv _ _ Vk Hrest) as [_ Vrest].
         destruct (unset_spec c rest rl (UKeep rv') (or_intror (or_intror Hc))) as [G _]; auto.
         intros r v L. specialize (Hu (k ++ r) v). rewrite lk_short, strip_app_same in Hu. specialize (Hu L).
@@ -1397,16 +1397,16 @@ Proof.
       try discriminate.
     + (* both edges go through *)
       apply bcmp_eq in Fl. apply bcmp_eq in Fr.
+      inversion Hw as [? v Vk0 Sk Hv|? ? Nk Ne Sk Hc|]; subst; [cbn in E; discriminate|].
       pose proof (firstn_eq_split _ _ Fl) as El. pose proof (firstn_eq_split _ _ Fr) as Er.
       remember (skipn (length rk) left) as l' eqn:Dl in *. remember (skipn (length rk) right) as r' eqn:Dr in *.
       destruct (unset_internal rv l' r') as [[rv'|]|e] eqn:Eu; try discriminate. inversion E; subst a. cbn [act_node].
       intros k [B1 B2]. rewrite Hlk. destruct (strip rk k) as [k'|] eqn:Ek; [|reflexivity].
       apply strip_some in Ek. subst k.
-      inversion Hw as [? v Vk0 Sk Hv|? ? Nk Ne Sk Hc|]; subst; [discriminate|].
       assert (Nl : l' <> []).
-      { intros En. rewrite En, app_nil_r in El. rewrite El in Vl. eapply valid_key_not_nibbles; eassumption. }
+      { intros En. rewrite En, app_nil_r in El. rewrite El in Vl. exact (valid_key_not_nibbles _ Vl Nk). }
       assert (Nr : r' <> []).
-      { intros En. rewrite En, app_nil_r in Er. rewrite Er in Vr. eapply valid_key_not_nibbles; eassumption. }
+      { intros En. rewrite En, app_nil_r in Er. rewrite Er in Vr. exact (valid_key_not_nibbles _ Vr Nk). }
       rewrite El in Vl, B1, Hlt, Hlen, Hu. rewrite Er in Vr, B2, Hlt, Hlen.
       destruct (valid_key_app_inv _ _ Vl Nl) as [_ Vl']. destruct (valid_key_app_inv _ _ Vr Nr) as [_ Vr'].
       rewrite slice_lt_app in Hlt. rewrite !app_length in Hlen.
@@ -1497,7 +1497,6 @@ Proof.
         -- apply Nat.eqb_eq in Br. assert (j = r0) by lia. subst j.
            rewrite N2 in Ec2. replace (Nat.eqb (N.to_nat r0) (N.to_nat l0)) with false in Ec2 by (symmetry; apply Nat.eqb_neq; lia).
            rewrite N1, Ern in Ec2. rewrite Nat.ltb_irrefl, andb_false_r in Ec2. inversion Ec2; subst c2.
-           rewrite <- Hlen in *. 
            destruct (unset_spec rn rr0 true a2 (pwf_full_slot _ _ _ Hw Ern)) as [G2 _]; auto.
            { intros r' v L. specialize (Hu (r0 :: r') v). rewrite lk_full, Ern in Hu. specialize (Hu L).
              simpl in Hu, Hlen. lia. }
@@ -1534,4 +1533,1509 @@ Proof.
       destruct Hb as [B1 B2]. split.
       * destruct B1 as [B1|B1]; [left; congruence|right]. apply slice_lt_cons in B1. destruct B1 as [?|[_ B1]]; [lia|exact B1].
       * destruct B2 as [B2|B2]; [left; congruence|right]. apply slice_lt_cons in B2. destruct B2 as [?|[_ B2]]; [lia|exact B2].
+Qed.
+
+(* ------------------------------------------------------------------ the partial tree simulates the full trie *)
+
+Section Sim.
+  Variable H : list N -> list N.
+  Hypothesis H_len : forall x, length (H x) = 32%nat.
+
+  Notation pv := (pv H).
+
+  Definition pvs (cs cs' : list node) : Prop :=
+    length cs = length cs' /\
+    forall i c c', nth_error cs i = Some c -> nth_error cs' i = Some c' -> pv c c'.
+
+  Lemma pvs_nth cs cs' i c : pvs cs cs' -> nth_error cs i = Some c ->
+    exists c', nth_error cs' i = Some c' /\ pv c c'.
+  Proof.
+    intros [L Hn] Ec. destruct (nth_error cs' i) as [c'|] eqn:Ec'.
+    - exists c'. split; [reflexivity|]. eapply Hn; eassumption.
+    - apply nth_error_None in Ec'. assert (i < length cs)%nat by (apply nth_error_Some; congruence). lia.
+  Qed.
+
+  Lemma pvs_clear lo hi cs cs' : pvs cs cs' -> pvs (clear_range lo hi cs) (clear_range lo hi cs').
+  Proof.
+    intros [L Hn]. split; [rewrite !clear_range_length; exact L|].
+    intros i c c' Ec Ec'. rewrite clear_range_nth in Ec, Ec'.
+    destruct (nth_error cs i) as [x|] eqn:Ex; [|discriminate]. destruct (nth_error cs' i) as [x'|] eqn:Ex'; [|discriminate].
+    inversion Ec; inversion Ec'; subst. destruct (Nat.leb lo i && Nat.ltb i hi); [constructor|]. eapply Hn; eassumption.
+  Qed.
+
+  Definition pvact (a a' : uact) : Prop :=
+    match a, a' with
+    | UKeep p, UKeep s => pv p s
+    | URemove, URemove => True
+    | _, _ => False
+    end.
+
+  Lemma pvact_node a a' : pvact a a' -> pv (act_node a) (act_node a').
+  Proof. destruct a as [p|], a' as [s|]; simpl; intros Ha; [exact Ha|destruct Ha|destruct Ha|constructor]. Qed.
+
+  Lemma pvs_set cs cs' i x x' cs2 : pvs cs cs' -> pv x x' -> set_child cs i x = Some cs2 ->
+    exists cs2', set_child cs' i x' = Some cs2' /\ pvs cs2 cs2'.
+  Proof.
+    intros [L Hn] Hx E. unfold set_child in *. destruct (set_nth_spec _ _ _ _ E) as [L2 N2].
+    pose proof (set_nth_lt _ _ _ _ E) as Hi.
+    destruct (set_nth_some (N.to_nat i) x' cs' ltac:(lia)) as [cs2' E'].
+    destruct (set_nth_spec _ _ _ _ E') as [L2' N2'].
+    exists cs2'. split; [exact E'|]. split; [lia|].
+    intros j c c' Ec Ec'. rewrite N2 in Ec. rewrite N2' in Ec'.
+    destruct (Nat.eqb j (N.to_nat i)); [inversion Ec; inversion Ec'; subst; exact Hx|eapply Hn; eassumption].
+  Qed.
+
+  Lemma pvs_apply cs cs' i a a' cs2 : pvs cs cs' -> pvact a a' -> apply_act cs i a = Some cs2 ->
+    exists cs2', apply_act cs' i a' = Some cs2' /\ pvs cs2 cs2'.
+  Proof.
+    intros Hp Ha E. unfold apply_act in *.
+    eapply (pvs_set cs cs' i (act_node a) (act_node a')); [exact Hp|apply pvact_node; exact Ha|].
+    destruct a; exact E.
+  Qed.
+
+  Lemma apply_act_node cs i a : apply_act cs i a = set_child cs i (act_node a).
+  Proof. destruct a; reflexivity. Qed.
+
+  Lemma pv_full_inv cs s : pv (NFull cs) s -> exists cs', s = NFull cs' /\ pvs cs cs'.
+  Proof. intros Hp. inversion Hp; subst. eexists. split; [reflexivity|]. split; assumption. Qed.
+  Lemma pv_short_inv k c s : pv (NShort k c) s -> exists c', s = NShort k c' /\ pv c c'.
+  Proof. intros Hp. inversion Hp; subst. eauto. Qed.
+  Lemma pv_empty_inv s : pv NEmpty s -> s = NEmpty.
+  Proof. intros Hp. inversion Hp; reflexivity. Qed.
+  Lemma pv_value_inv v s : pv (NValue v) s -> s = NValue v.
+  Proof. intros Hp. inversion Hp; reflexivity. Qed.
+  Lemma pv_hash_inner h s : pv (NHash h) s -> inner_shape s.
+  Proof. intros Hp. inversion Hp; subst. destruct (pwf_shape s H1) as [(k & c & ->)|(cs & ->)]; exact I. Qed.
+
+  Lemma unset_sim p : forall s key rl a, pv p s -> unset p key rl = TOk a ->
+    exists a', unset s key rl = TOk a' /\ pvact a a'.
+  Proof.
+    induction p as [|v|ck cv IH|cs IH|h] using node_ind'; intros s key rl a Hp E; try discriminate.
+    - apply pv_empty_inv in Hp. subst s. inversion E; subst. exists (UKeep NEmpty). split; [reflexivity|constructor].
+    - destruct (pv_short_inv _ _ _ Hp) as (cv' & -> & Hc). cbn [unset] in E |- *.
+      destruct (negb (is_prefix_of ck key)).
+      + destruct rl.
+        * destruct (slice_lt ck key); inversion E; subst; eexists; (split; [reflexivity|]); simpl; auto.
+        * destruct (slice_lt key ck); inversion E; subst; eexists; (split; [reflexivity|]); simpl; auto.
+      + destruct cv as [|v|k2 c2|cs2|h2].
+        * apply pv_empty_inv in Hc. subst cv'. cbn in E. inversion E; subst. eexists. split; [reflexivity|]. simpl. constructor. constructor.
+        * apply pv_value_inv in Hc. subst cv'. inversion E; subst. exists URemove. split; [reflexivity|exact I].
+        * destruct (pv_short_inv _ _ _ Hc) as (c2' & -> & Hc2).
+          destruct (unset (NShort k2 c2) (skipn (length ck) key) rl) as [[x|]|e] eqn:Eu; try discriminate.
+          destruct (IH _ _ _ _ Hc Eu) as (a' & Ea' & Ha'). rewrite Ea'. destruct a' as [x'|]; [|destruct Ha'].
+          inversion E; subst. eexists. split; [reflexivity|]. simpl. constructor. exact Ha'.
+        * destruct (pv_full_inv _ _ Hc) as (cs2' & -> & Hcs2).
+          destruct (unset (NFull cs2) (skipn (length ck) key) rl) as [[x|]|e] eqn:Eu; try discriminate.
+          destruct (IH _ _ _ _ Hc Eu) as (a' & Ea' & Ha'). rewrite Ea'. destruct a' as [x'|]; [|destruct Ha'].
+          inversion E; subst. eexists. split; [reflexivity|]. simpl. constructor. exact Ha'.
+        * cbn in E. discriminate.
+    - destruct (pv_full_inv _ _ Hp) as (cs' & -> & Hcs). destruct key as [|k0 kr]; [discriminate|].
+      rewrite unset_full in E |- *. cbv zeta in E |- *.
+      destruct (nth_error cs (N.to_nat k0)) as [c|] eqn:Ec; [|discriminate].
+      destruct (pvs_nth _ _ _ _ Hcs Ec) as (c' & Ec' & Hc). rewrite Ec'.
+      destruct (unset c kr rl) as [a0|e] eqn:Eu; [|discriminate].
+      rewrite Forall_forall in IH. destruct (IH c (nth_error_In _ _ Ec) _ _ _ _ Hc Eu) as (a0' & Ea0' & Ha0). rewrite Ea0'.
+      destruct (apply_act _ k0 a0) as [cs2|] eqn:Ea; [|discriminate]. inversion E; subst a.
+      assert (Hcl : pvs (if rl then clear_range 0 (N.to_nat k0) cs else clear_range (N.to_nat k0 + 1) 16 cs)
+                        (if rl then clear_range 0 (N.to_nat k0) cs' else clear_range (N.to_nat k0 + 1) 16 cs'))
+        by (destruct rl; apply pvs_clear; exact Hcs).
+      destruct (pvs_apply _ _ _ _ _ _ Hcl Ha0 Ea) as (cs2' & -> & Hcs2).
+      eexists. split; [reflexivity|]. simpl. destruct Hcs2. constructor; assumption.
+  Qed.
+
+  Lemma iface_neq_sim l0 r0 ln rn ln' rn' b :
+    pv ln ln' -> pv rn rn' -> is_empty ln || is_empty rn = false ->
+    (l0 = r0 -> ln = rn) ->
+    iface_neq l0 r0 ln rn = Some b -> iface_neq l0 r0 ln' rn' = Some b.
+  Proof.
+    intros Hl Hr He Hsame E.
+    destruct ln as [|vl|kl cl|csl|hl]; destruct rn as [|vr|kr cr|csr|hr]; cbn in He; try discriminate;
+      cbn in E; try discriminate.
+    all: first [apply pv_value_inv in Hl; subst ln'
+               |destruct (pv_short_inv _ _ _ Hl) as (? & ? & _); subst ln'
+               |destruct (pv_full_inv _ _ Hl) as (? & ? & _); subst ln'
+               |apply pv_hash_inner in Hl; destruct ln'; try destruct Hl].
+    all: first [apply pv_value_inv in Hr; subst rn'
+               |destruct (pv_short_inv _ _ _ Hr) as (? & ? & _); subst rn'
+               |destruct (pv_full_inv _ _ Hr) as (? & ? & _); subst rn'
+               |apply pv_hash_inner in Hr; destruct rn'; try destruct Hr].
+    all: cbn; try exact E.
+    all: inversion E; subst b; destruct (N.eqb_spec l0 r0) as [Heq|]; [specialize (Hsame Heq); discriminate|reflexivity].
+  Qed.
+
+  Lemma unset_internal_sim p : forall s left right a, pv p s -> unset_internal p left right = Rok a ->
+    exists a', unset_internal s left right = Rok a' /\ pvact a a'.
+  Proof.
+    induction p as [|v|rk rv IH|cs IH|h] using node_ind'; intros s left right a Hp E; try discriminate.
+    - destruct (pv_short_inv _ _ _ Hp) as (rv' & -> & Hc). cbn [unset_internal] in E |- *. cbv zeta in E |- *.
+      assert (Hedge : forall key rl,
+                match rv with
+                | NValue _ => Rok URemove
+                | _ => match unset rv key rl with
+                       | TErr e => Rerr (of_terr e)
+                       | TOk (UKeep x) => Rok (UKeep (NShort rk x))
+                       | TOk URemove => Rerr RPanic
+                       end
+                end = Rok a ->
+                exists a', match rv' with
+                | NValue _ => Rok URemove
+                | _ => match unset rv' key rl with
+                       | TErr e => Rerr (of_terr e)
+                       | TOk (UKeep x) => Rok (UKeep (NShort rk x))
+                       | TOk URemove => Rerr RPanic
+                       end
+                end = Rok a' /\ pvact a a').
+      { intros key rl E0.
+        assert (Hgen : forall (Hnv : forall v, rv <> NValue v),
+                  match unset rv key rl with
+                  | TErr e => Rerr (of_terr e)
+                  | TOk (UKeep x) => Rok (UKeep (NShort rk x))
+                  | TOk URemove => Rerr RPanic
+                  end = Rok a ->
+                  exists a', match unset rv' key rl with
+                  | TErr e => Rerr (of_terr e)
+                  | TOk (UKeep x) => Rok (UKeep (NShort rk x))
+                  | TOk URemove => Rerr RPanic
+                  end = Rok a' /\ pvact a a').
+        { intros _ E1. destruct (unset rv key rl) as [[x|]|e] eqn:Eu; try discriminate.
+          destruct (unset_sim _ _ _ _ _ Hc Eu) as (a' & -> & Ha'). destruct a' as [x'|]; [|destruct Ha'].
+          inversion E1; subst. eexists. split; [reflexivity|]. simpl. constructor. exact Ha'. }
+        destruct rv as [|v|k2 c2|cs2|h2].
+        - apply pv_empty_inv in Hc. subst rv'. apply Hgen; [discriminate|exact E0].
+        - apply pv_value_inv in Hc. subst rv'. inversion E0; subst. exists URemove. split; [reflexivity|exact I].
+        - destruct (pv_short_inv _ _ _ Hc) as (? & -> & _). apply Hgen; [discriminate|exact E0].
+        - destruct (pv_full_inv _ _ Hc) as (? & -> & _). apply Hgen; [discriminate|exact E0].
+        - cbn in E0. discriminate. }
+      destruct (bcmp (firstn (length rk) left) rk); destruct (bcmp (firstn (length rk) right) rk); try discriminate;
+        try (apply Hedge; exact E); try (inversion E; subst; exists URemove; split; [reflexivity|exact I]).
+      destruct (unset_internal rv _ _) as [[x|]|e] eqn:Eu; try discriminate.
+      destruct (IH _ _ _ _ Hc Eu) as (a' & -> & Ha'). destruct a' as [x'|]; [|destruct Ha'].
+      inversion E; subst. eexists. split; [reflexivity|]. simpl. constructor. exact Ha'.
+    - destruct (pv_full_inv _ _ Hp) as (cs' & -> & Hcs).
+      destruct left as [|l0 lr]; [discriminate|]. destruct right as [|r0 rr0]; [discriminate|].
+      rewrite unset_internal_full in E |- *. unfold child in *.
+      destruct (nth_error cs (N.to_nat l0)) as [ln|] eqn:Eln; [|discriminate].
+      destruct (nth_error cs (N.to_nat r0)) as [rn|] eqn:Ern; [|discriminate].
+      destruct (pvs_nth _ _ _ _ Hcs Eln) as (ln' & Eln' & Hln). destruct (pvs_nth _ _ _ _ Hcs Ern) as (rn' & Ern' & Hrn).
+      rewrite Eln', Ern'.
+      assert (Hemp : forall x x', pv x x' -> is_empty x' = is_empty x).
+      { intros x x' Hx. destruct x; try reflexivity.
+        - apply pv_empty_inv in Hx. subst. reflexivity.
+        - apply pv_value_inv in Hx. subst. reflexivity.
+        - destruct (pv_short_inv _ _ _ Hx) as (? & -> & _). reflexivity.
+        - destruct (pv_full_inv _ _ Hx) as (? & -> & _). reflexivity.
+        - pose proof (pv_hash_inner _ _ Hx). destruct x'; try destruct H0; reflexivity. }
+      rewrite (Hemp _ _ Hln), (Hemp _ _ Hrn).
+      assert (Hfork : forall fk, (if is_empty ln || is_empty rn then Some true else iface_neq l0 r0 ln rn) = Some fk ->
+                (if is_empty ln || is_empty rn then Some true else iface_neq l0 r0 ln' rn') = Some fk).
+      { intros fk Ef. destruct (is_empty ln || is_empty rn) eqn:Ee; [exact Ef|].
+        eapply iface_neq_sim; eauto. intros ->. congruence. }
+      destruct (if is_empty ln || is_empty rn then Some true else iface_neq l0 r0 ln rn) as [[|]|] eqn:Fk; [| |discriminate];
+        rewrite (Hfork _ eq_refl).
+      + (* fork *)
+        unfold ui_fork in E |- *. cbv zeta in E |- *. unfold child in *.
+        pose proof (pvs_clear (N.to_nat l0 + 1) (N.to_nat r0) _ _ Hcs) as Hcs1.
+        destruct (nth_error (clear_range _ _ cs) (N.to_nat l0)) as [c1|] eqn:Ec1; [|discriminate].
+        destruct (pvs_nth _ _ _ _ Hcs1 Ec1) as (c1' & -> & Hc1).
+        destruct (unset c1 lr false) as [a1|e] eqn:E1; [|discriminate].
+        destruct (unset_sim _ _ _ _ _ Hc1 E1) as (a1' & -> & Ha1).
+        destruct (apply_act _ l0 a1) as [cs2|] eqn:A1; [|discriminate].
+        destruct (pvs_apply _ _ _ _ _ _ Hcs1 Ha1 A1) as (cs2' & -> & Hcs2).
+        destruct (nth_error cs2 (N.to_nat r0)) as [c2|] eqn:Ec2; [|discriminate].
+        destruct (pvs_nth _ _ _ _ Hcs2 Ec2) as (c2' & -> & Hc2).
+        destruct (unset c2 rr0 true) as [a2|e] eqn:E2; [|discriminate].
+        destruct (unset_sim _ _ _ _ _ Hc2 E2) as (a2' & -> & Ha2).
+        destruct (apply_act cs2 r0 a2) as [cs3|] eqn:A2; [|discriminate].
+        destruct (pvs_apply _ _ _ _ _ _ Hcs2 Ha2 A2) as (cs3' & -> & Hcs3).
+        inversion E; subst. eexists. split; [reflexivity|]. simpl. destruct Hcs3. constructor; assumption.
+      + (* descend *)
+        destruct (unset_internal ln lr rr0) as [a0|e] eqn:Eu; [|discriminate].
+        rewrite Forall_forall in IH. destruct (IH ln (nth_error_In _ _ Eln) _ _ _ _ Hln Eu) as (a0' & -> & Ha0).
+        destruct (apply_act cs l0 a0) as [cs2|] eqn:A; [|discriminate].
+        destruct (pvs_apply _ _ _ _ _ _ Hcs Ha0 A) as (cs2' & -> & Hcs2).
+        inversion E; subst. eexists. split; [reflexivity|]. simpl. destruct Hcs2. constructor; assumption.
+  Qed.
+End Sim.
+
+Section SimInsert.
+  Variable H : list N -> list N.
+  Hypothesis H_len : forall x, length (H x) = 32%nat.
+  Notation pv := (pv H).
+
+  Lemma pv_inil k c c' : pv c c' -> pv (inil k c) (inil k c').
+  Proof. intros Hc. unfold inil. destruct k; [exact Hc|constructor; exact Hc]. Qed.
+
+  Lemma pvs_empty17 : pvs H empty17 empty17.
+  Proof.
+    split; [reflexivity|]. intros i c c' E E'. apply nth_error_empty17 in E. apply nth_error_empty17 in E'.
+    subst. constructor.
+  Qed.
+
+  Lemma insert_full_unfold' f cs prefix k0 kr value :
+    insert no_resolve (S f) (NFull cs) prefix (k0 :: kr) value =
+    match child cs k0 with
+    | None => TErr EPanic
+    | Some c =>
+        match insert no_resolve f c (prefix ++ [k0]) kr value with
+        | TOk (true, nn, ev) =>
+            match set_child cs k0 nn with
+            | Some cs' => TOk (true, NFull cs', ev)
+            | None => TErr EPanic
+            end
+        | TOk (false, _, ev) => TOk (false, NFull cs, ev)
+        | TErr e => TErr e
+        end
+    end.
+  Proof. reflexivity. Qed.
+
+  (* insertion into the partial tree = insertion into the full trie, unless a hash node is hit *)
+  Lemma insert_sim : forall fuel p s prefix key v d p' ev,
+    pv p s -> insert no_resolve fuel p prefix key (NValue v) = TOk (d, p', ev) ->
+    exists s' ev', insert no_resolve fuel s prefix key (NValue v) = TOk (d, s', ev') /\ pv p' s'.
+  Proof.
+    induction fuel as [|f IH]; intros p s prefix key v d p' ev Hp E; [discriminate|].
+    destruct key as [|k0 kr].
+    - (* the value slot *)
+      destruct p as [|v0|k c|cs|h].
+      + apply pv_empty_inv in Hp. subst s. cbn in E |- *. inversion E; subst. eexists _, _. split; [reflexivity|constructor].
+      + apply pv_value_inv in Hp. subst s. cbn in E |- *. inversion E; subst. eexists _, _. split; [reflexivity|constructor].
+      + destruct (pv_short_inv _ _ _ _ Hp) as (c' & -> & _). cbn in E |- *. inversion E; subst. eexists _, _. split; [reflexivity|constructor].
+      + destruct (pv_full_inv _ _ _ Hp) as (cs' & -> & _). cbn in E |- *. inversion E; subst. eexists _, _. split; [reflexivity|constructor].
+      + pose proof (pv_hash_inner _ _ _ Hp) as Hi. cbn in E. inversion E; subst.
+        destruct s; try destruct Hi; cbn; eexists _, _; (split; [reflexivity|constructor]).
+    - destruct p as [|v0|nk nv|cs|h].
+      + apply pv_empty_inv in Hp. subst s. cbn in E |- *. inversion E; subst. eexists _, _. split; [reflexivity|].
+        constructor. constructor.
+      + discriminate.
+      + (* short *)
+        destruct (pv_short_inv _ _ _ _ Hp) as (nv' & -> & Hc).
+        rewrite insert_short_unfold in E |- * by discriminate. cbv zeta in E |- *.
+        destruct (Nat.eqb (prefix_len (k0 :: kr) nk) (length nk)).
+        * destruct (insert no_resolve f nv _ _ _) as [[[d0 nn] ev0]|e] eqn:Ei; [|discriminate].
+          destruct (IH _ _ _ _ _ _ _ _ Hc Ei) as (nn' & ev0' & -> & Hnn).
+          destruct d0; inversion E; subst; eexists _, _; (split; [reflexivity|]); constructor; assumption.
+        * destruct (nth_error nk _) as [a|]; [|discriminate]. destruct (nth_error (k0 :: kr) _) as [b|]; [|discriminate].
+          rewrite (surjective_pairing (insert_nil _ (skipn _ nk) nv)) in E.
+          rewrite (surjective_pairing (insert_nil _ (skipn _ nk) nv')).
+          rewrite (surjective_pairing (insert_nil _ (skipn _ (k0 :: kr)) (NValue v))) in E |- *.
+          rewrite !insert_nil_fst in E |- *.
+          destruct (set_child empty17 a (inil _ nv)) as [cs1|] eqn:S1; [|discriminate].
+          destruct (pvs_set H _ _ _ _ _ _ pvs_empty17 (pv_inil (skipn (prefix_len (k0 :: kr) nk + 1) nk) _ _ Hc) S1) as (cs1' & -> & Hcs1).
+          destruct (set_child cs1 b _) as [cs2|] eqn:S2; [|discriminate].
+          destruct (pvs_set H _ _ _ _ _ _ Hcs1 (pv_inil (skipn (prefix_len (k0 :: kr) nk + 1) (k0 :: kr)) _ _ (pv_value H v)) S2) as (cs2' & S2' & Hcs2).
+          rewrite S2'.
+          destruct (Nat.eqb (prefix_len (k0 :: kr) nk) 0); inversion E; subst; eexists _, _; (split; [reflexivity|]);
+            destruct Hcs2; repeat constructor; assumption.
+      + (* full *)
+        destruct (pv_full_inv _ _ _ Hp) as (cs' & -> & Hcs).
+        rewrite insert_full_unfold' in E |- *. unfold child in *.
+        destruct (nth_error cs (N.to_nat k0)) as [c|] eqn:Ec; [|discriminate].
+        destruct (pvs_nth H _ _ _ _ Hcs Ec) as (c' & -> & Hc).
+        destruct (insert no_resolve f c _ _ _) as [[[d0 nn] ev0]|e] eqn:Ei; [|discriminate].
+        destruct (IH _ _ _ _ _ _ _ _ Hc Ei) as (nn' & ev0' & -> & Hnn).
+        destruct d0.
+        * destruct (set_child cs k0 nn) as [cs2|] eqn:S1; [|discriminate].
+          destruct (pvs_set H _ _ _ _ _ _ Hcs Hnn S1) as (cs2' & -> & Hcs2).
+          inversion E; subst. eexists _, _. split; [reflexivity|]. destruct Hcs2. constructor; assumption.
+        * inversion E; subst. eexists _, _. split; [reflexivity|]. destruct Hcs. constructor; assumption.
+      + cbn in E. discriminate.
+  Qed.
+End SimInsert.
+
+Section EncPv.
+  Variable H : list N -> list N.
+  Hypothesis H_len : forall x, length (H x) = 32%nat.
+  Notation pv := (pv H).
+
+  (* one child slot: its contribution to the parent's encoding *)
+  Definition slot_at (i : nat) (c : node) : option (list N) :=
+    match c with
+    | NEmpty => Some [128]
+    | _ =>
+        if Nat.eqb i 16 then
+          match c with
+          | NValue [] => Some [128]
+          | NValue v => Some (Rlp.Codec.enc_str v)
+          | _ => None
+          end
+        else
+          match c with
+          | NHash [] => Some [128]
+          | NHash h => Some (write_ref h)
+          | NShort _ _ | NFull _ =>
+              match node_enc H c with
+              | Some e => Some (write_ref (ref_of_enc H e))
+              | None => None
+              end
+          | _ => None
+          end
+    end.
+
+  Lemma enc_go_cons i c r :
+    enc_go H i (c :: r) = match slot_at i c, enc_go H (S i) r with Some a, Some b => Some (a ++ b) | _, _ => None end.
+  Proof. reflexivity. Qed.
+
+  Lemma slot_at_pv i c c' : pv c c' -> (inner_shape c -> node_enc H c = node_enc H c') ->
+    slot_at i c = slot_at i c'.
+  Proof.
+    intros Hp IH. destruct c as [|v|k x|cs|h].
+    - apply pv_empty_inv in Hp. subst. reflexivity.
+    - apply pv_value_inv in Hp. subst. reflexivity.
+    - destruct (pv_short_inv _ _ _ _ Hp) as (x' & -> & _). unfold slot_at. rewrite (IH I). reflexivity.
+    - destruct (pv_full_inv _ _ _ Hp) as (cs' & -> & _). unfold slot_at. rewrite (IH I). reflexivity.
+    - inversion Hp as [| |t e Hw Ee Le| |]; subst. unfold slot_at.
+      assert (Hne : H e <> []) by (intros E0; pose proof (H_len e) as L; rewrite E0 in L; discriminate).
+      destruct (Nat.eqb i 16).
+      + destruct (H e); [congruence|]. destruct (pwf_shape c' Hw) as [(k & x & ->)|(cs & ->)]; reflexivity.
+      + assert (R : ref_of_enc H e = H e).
+        { unfold ref_of_enc. replace (Nat.ltb (length e) 32) with false; [reflexivity|]. symmetry. apply Nat.ltb_ge. exact Le. }
+        destruct (H e) eqn:He; [congruence|].
+        destruct (pwf_shape c' Hw) as [(k & x & ->)|(cs & ->)]; rewrite Ee, R; reflexivity.
+  Qed.
+
+  Lemma enc_go_pv l : forall l' i, pvs H l l' ->
+    (forall c c', In c l -> pv c c' -> inner_shape c -> node_enc H c = node_enc H c') ->
+    enc_go H i l = enc_go H i l'.
+  Proof.
+    induction l as [|c l IH]; intros [|c' l'] i [L Hn] Hin; try discriminate; [reflexivity|].
+    rewrite !enc_go_cons.
+    assert (Hc : pv c c') by (apply (Hn 0%nat); reflexivity).
+    rewrite (slot_at_pv i c c' Hc); [|intros Hi; apply Hin; [left; reflexivity|exact Hc|exact Hi]].
+    rewrite (IH l' (S i)); [reflexivity| |].
+    - split; [simpl in L; lia|]. intros j x x' Ex Ex'. apply (Hn (S j)); assumption.
+    - intros x x' Hx. apply Hin. right. exact Hx.
+  Qed.
+
+  (* a hash reference stands for exactly what the subtrie would contribute *)
+  Lemma enc_pv p : forall s, pv p s -> inner_shape p -> node_enc H p = node_enc H s.
+  Proof.
+    induction p as [|v|k c IH|cs IH|h] using node_ind'; intros s Hp Hi; try destruct Hi.
+    - destruct (pv_short_inv _ _ _ _ Hp) as (c' & -> & Hc). cbn [node_enc].
+      destruct (hex_to_compact k) as [ck|]; [|reflexivity].
+      assert (B : (if has_term k then match c with NValue v => Some (Rlp.Codec.enc_str v) | _ => None end
+                   else match c with
+                        | NHash h => Some (write_ref h)
+                        | NShort _ _ | NFull _ => match node_enc H c with Some e => Some (write_ref (ref_of_enc H e)) | None => None end
+                        | _ => None end) =
+                  (if has_term k then match c' with NValue v => Some (Rlp.Codec.enc_str v) | _ => None end
+                   else match c' with
+                        | NHash h => Some (write_ref h)
+                        | NShort _ _ | NFull _ => match node_enc H c' with Some e => Some (write_ref (ref_of_enc H e)) | None => None end
+                        | _ => None end)).
+      { destruct c as [|v|k2 x|cs2|h2].
+        - apply pv_empty_inv in Hc. subst. reflexivity.
+        - apply pv_value_inv in Hc. subst. reflexivity.
+        - destruct (pv_short_inv _ _ _ _ Hc) as (x' & -> & _). rewrite (IH _ Hc I). reflexivity.
+        - destruct (pv_full_inv _ _ _ Hc) as (cs' & -> & _). rewrite (IH _ Hc I). reflexivity.
+        - inversion Hc as [| |t e Hw Ee Le| |]; subst.
+          assert (R : ref_of_enc H e = H e).
+          { unfold ref_of_enc. replace (Nat.ltb (length e) 32) with false; [reflexivity|]. symmetry. apply Nat.ltb_ge. exact Le. }
+          destruct (has_term k); destruct (pwf_shape c' Hw) as [(k3 & x & ->)|(cs3 & ->)]; try reflexivity; rewrite Ee, R; reflexivity. }
+      rewrite B. reflexivity.
+    - destruct (pv_full_inv _ _ _ Hp) as (cs' & -> & Hcs).
+      rewrite !node_enc_full. rewrite (enc_go_pv cs cs' 0 Hcs); [reflexivity|].
+      intros c c' Hin Hc Hic. rewrite Forall_forall in IH. apply (IH c Hin c' Hc Hic).
+  Qed.
+
+  Lemma hash_root_pv p s : pv p s -> (p = NEmpty \/ inner_shape p) -> hash_root H p = hash_root H s.
+  Proof.
+    intros Hp [->|Hi].
+    - apply pv_empty_inv in Hp. subst. reflexivity.
+    - pose proof (enc_pv p s Hp Hi) as E. destruct p; try destruct Hi.
+      + destruct (pv_short_inv _ _ _ _ Hp) as (c' & -> & _). unfold hash_root, node_ref. rewrite E. reflexivity.
+      + destruct (pv_full_inv _ _ _ Hp) as (cs' & -> & _). unfold hash_root, node_ref. rewrite E. reflexivity.
+  Qed.
+End EncPv.
+
+(* ------------------------------------------------------------------ the full trie stays well formed *)
+
+Fixpoint szi (n : node) : Prop :=
+  match n with
+  | NEmpty => True
+  | NValue v => val_ok v
+  | NShort k c => small k /\ c <> NEmpty /\ szi c
+  | NFull cs => (fix go (l : list node) : Prop := match l with [] => True | c :: r => szi c /\ go r end) cs
+  | NHash _ => False
+  end.
+
+Lemma szi_full cs : szi (NFull cs) <-> (forall i c, nth_error cs i = Some c -> szi c).
+Proof.
+  cbn [szi]. induction cs as [|x cs IH].
+  - split; [intros _ [|i] c E; discriminate|auto].
+  - rewrite IH. split.
+    + intros [Hx Hr] [|i] c E; [inversion E; subst; exact Hx|apply (Hr i); exact E].
+    + intros Hn. split; [apply (Hn 0%nat); reflexivity|intros i c E; apply (Hn (S i)); exact E].
+Qed.
+
+Lemma pwf_wfn n : pwf n -> wfn n.
+Proof.
+  induction n as [|v|k c IH|cs IH|h] using node_ind'; intros Hw;
+    inversion Hw as [? ? Vk Sk Hv|? ? Nk Ne Sk Hc|? L17 C V]; subst.
+  - apply wfn_leaf. assumption.
+  - apply wfn_ext; auto.
+  - apply wfn_full; [assumption| |].
+    + intros i c Hi Hlt. destruct (C i c Hi Hlt) as [->|Hc]; [constructor|].
+      rewrite Forall_forall in IH. apply IH; [eapply nth_error_In; exact Hi|exact Hc].
+    + intros c Hi. destruct (V c Hi) as [->|(v & -> & _)]; [apply vslot_empty|apply vslot_value].
+Qed.
+
+Lemma pwf_szi n : pwf n -> szi n.
+Proof.
+  induction n as [|v|k c IH|cs IH|h] using node_ind'; intros Hw;
+    inversion Hw as [? ? Vk Sk Hv|? ? Nk Ne Sk Hc|? L17 C V]; subst.
+  - cbn. split; [assumption|]. split; [discriminate|assumption].
+  - cbn [szi]. split; [assumption|]. split; [|apply IH; assumption].
+    intros ->. inversion Hc.
+  - apply szi_full. intros i c Hi.
+    assert (i < 17)%nat by (rewrite <- L17; apply nth_error_Some; congruence).
+    destruct (Nat.eq_dec i 16) as [->|Hne].
+    + destruct (V c Hi) as [->|(v & -> & Hv)]; [exact I|exact Hv].
+    + destruct (C i c Hi ltac:(lia)) as [->|Hc]; [exact I|].
+      rewrite Forall_forall in IH. apply IH; [eapply nth_error_In; exact Hi|exact Hc].
+Qed.
+
+Lemma wfn_szi_pwf n : wfn n -> szi n -> n = NEmpty \/ pwf n.
+Proof.
+  induction n as [|v|k c IH|cs IH|h] using node_ind'; intros Hw Hz;
+    inversion Hw as [|? ? Vk|? ? Nk Ne Hc|? L17 C V]; subst.
+  - left; reflexivity.
+  - right. cbn in Hz. destruct Hz as (Hs & _ & Hv). apply pwf_leaf; assumption.
+  - right. cbn [szi] in Hz. destruct Hz as (Hs & Hne & Hzc). destruct (IH Hc Hzc) as [->|Hp]; [congruence|].
+    apply pwf_ext; assumption.
+  - right. rewrite szi_full in Hz. apply pwf_full; [assumption| |].
+    + intros i c Hi Hlt. rewrite Forall_forall in IH.
+      apply (IH c (nth_error_In _ _ Hi) (C i c Hi Hlt) (Hz i c Hi)).
+    + intros c Hi. destruct (V c Hi) as [->|[v ->]]; [left; reflexivity|right].
+      exists v. split; [reflexivity|]. apply (Hz 16%nat _ Hi).
+Qed.
+
+Lemma pwf_full_update cs cs2 : pwf (NFull cs) -> length cs2 = length cs ->
+  (forall j x, nth_error cs2 j = Some x -> x = NEmpty \/ nth_error cs j = Some x \/ ((j < 16)%nat /\ pwf x)) ->
+  pwf (NFull cs2).
+Proof.
+  intros Hw L Hn. inversion Hw as [| |? L17 C V]; subst. apply pwf_full; [lia| |].
+  - intros i c Hi Hlt. destruct (Hn i c Hi) as [->|[E|[_ Hp]]]; [left; reflexivity| |right; exact Hp].
+    apply (C i c E Hlt).
+  - intros c Hi. destruct (Hn 16%nat c Hi) as [->|[E|[Hlt _]]]; [left; reflexivity| |lia]. apply (V c E).
+Qed.
+
+Lemma unset_pwf s : forall key rl a, pwf s -> unset s key rl = TOk a ->
+  a = URemove \/ exists s', a = UKeep s' /\ pwf s'.
+Proof.
+  induction s as [|v|ck cv IH|cs IH|h] using node_ind'; intros key rl a Hw E; try solve [inversion Hw].
+  - cbn [unset] in E. destruct (negb (is_prefix_of ck key)).
+    + destruct rl; [destruct (slice_lt ck key)|destruct (slice_lt key ck)]; inversion E; subst; auto; right; eauto.
+    + inversion Hw as [? v Vk Sk Hv|? ? Nk Ne Sk Hc|]; subst; [inversion E; auto|].
+      destruct (pwf_shape cv Hc) as [(k2 & c2 & ->)|(cs2 & ->)].
+      * destruct (unset (NShort k2 c2) _ rl) as [[x|]|e] eqn:Eu; try discriminate.
+        destruct (IH _ _ _ Hc Eu) as [?|(s' & Es & Hs')]; [discriminate|]. inversion Es; subst s'.
+        inversion E; subst. right. eexists. split; [reflexivity|]. apply pwf_ext; assumption.
+      * destruct (unset (NFull cs2) _ rl) as [[x|]|e] eqn:Eu; try discriminate.
+        destruct (IH _ _ _ Hc Eu) as [?|(s' & Es & Hs')]; [discriminate|]. inversion Es; subst s'.
+        inversion E; subst. right. eexists. split; [reflexivity|]. apply pwf_ext; assumption.
+  - destruct key as [|k0 kr]; [discriminate|]. rewrite unset_full in E. cbv zeta in E.
+    destruct (nth_error cs (N.to_nat k0)) as [c|] eqn:Ec; [|discriminate].
+    destruct (unset c kr rl) as [a0|e] eqn:Eu; [|discriminate].
+    destruct (apply_act _ k0 a0) as [cs2|] eqn:Ea; [|discriminate]. inversion E; subst a.
+    destruct (apply_act_nth _ _ _ _ Ea) as [L2 N2].
+    right. eexists. split; [reflexivity|]. apply (pwf_full_update cs); [exact Hw| |].
+    + rewrite L2. destruct rl; apply clear_range_length.
+    + intros j x Ex. rewrite N2 in Ex. destruct (Nat.eqb j (N.to_nat k0)) eqn:B.
+      * apply Nat.eqb_eq in B. subst j. inversion Ex; subst x.
+        destruct (pwf_full_slot cs _ c Hw Ec) as [->|[[v ->]|Hc]].
+        -- inversion Eu; subst. left; reflexivity.
+        -- discriminate.
+        -- rewrite Forall_forall in IH. destruct (IH c (nth_error_In _ _ Ec) _ _ _ Hc Eu) as [->|(s' & -> & Hs')]; [left; reflexivity|].
+           simpl. inversion Hw as [| |? L17 C V]; subst.
+           destruct (Nat.eq_dec (N.to_nat k0) 16) as [E16|Hne].
+           ++ rewrite E16 in Ec. destruct (V c Ec) as [->|(v & -> & _)]; inversion Hc.
+           ++ right; right. split; [|exact Hs'].
+              assert (N.to_nat k0 < 17)%nat by (rewrite <- L17; apply nth_error_Some; congruence). lia.
+      * destruct rl; rewrite clear_range_nth in Ex; destruct (nth_error cs j) as [y|] eqn:Ey; try discriminate;
+          inversion Ex; subst x; match goal with |- context [if ?b then _ else _] => destruct b end; auto.
+Qed.
+
+Lemma unset_internal_pwf s : forall left right a, pwf s -> unset_internal s left right = Rok a ->
+  a = URemove \/ exists s', a = UKeep s' /\ pwf s'.
+Proof.
+  induction s as [|v|rk rv IH|cs IH|h] using node_ind'; intros left right a Hw E; try solve [inversion Hw].
+  - cbn [unset_internal] in E. cbv zeta in E.
+    assert (Hedge : forall key rl,
+              match rv with
+              | NValue _ => Rok URemove
+              | _ => match unset rv key rl with
+                     | TErr e => Rerr (of_terr e)
+                     | TOk (UKeep x) => Rok (UKeep (NShort rk x))
+                     | TOk URemove => Rerr RPanic
+                     end
+              end = Rok a -> a = URemove \/ exists s', a = UKeep s' /\ pwf s').
+    { intros key rl E0. inversion Hw as [? v Vk Sk Hv|? ? Nk Ne Sk Hc|]; subst; [inversion E0; auto|].
+      destruct (pwf_shape rv Hc) as [(k2 & c2 & ->)|(cs2 & ->)].
+      - destruct (unset (NShort k2 c2) key rl) as [[x|]|e] eqn:Eu; try discriminate.
+        destruct (unset_pwf _ _ _ _ Hc Eu) as [?|(s' & Es & Hs')]; [discriminate|]. inversion Es; subst s'.
+        inversion E0; subst. right. eexists. split; [reflexivity|]. apply pwf_ext; assumption.
+      - destruct (unset (NFull cs2) key rl) as [[x|]|e] eqn:Eu; try discriminate.
+        destruct (unset_pwf _ _ _ _ Hc Eu) as [?|(s' & Es & Hs')]; [discriminate|]. inversion Es; subst s'.
+        inversion E0; subst. right. eexists. split; [reflexivity|]. apply pwf_ext; assumption. }
+    destruct (bcmp (firstn (length rk) left) rk); destruct (bcmp (firstn (length rk) right) rk); try discriminate;
+      try (eapply Hedge; exact E); try (inversion E; subst; left; reflexivity).
+    destruct (unset_internal rv _ _) as [[x|]|e] eqn:Eu; try discriminate.
+    inversion Hw as [? v Vk Sk Hv|? ? Nk Ne Sk Hc|]; subst; [cbn in Eu; discriminate|].
+    destruct (IH _ _ _ Hc Eu) as [?|(s' & Es & Hs')]; [discriminate|]. inversion Es; subst s'.
+    inversion E; subst. right. eexists. split; [reflexivity|]. apply pwf_ext; assumption.
+  - destruct left as [|l0 lr]; [discriminate|]. destruct right as [|r0 rr0]; [discriminate|].
+    rewrite unset_internal_full in E. unfold child in E.
+    destruct (nth_error cs (N.to_nat l0)) as [ln|] eqn:Eln; [|discriminate].
+    destruct (nth_error cs (N.to_nat r0)) as [rn|] eqn:Ern; [|discriminate].
+    assert (Hslot : forall j c key rl a0, nth_error cs j = Some c -> unset c key rl = TOk a0 ->
+              act_node a0 = NEmpty \/ nth_error cs j = Some (act_node a0) \/ ((j < 16)%nat /\ pwf (act_node a0))).
+    { intros j c key rl a0 Ec Eu. destruct (pwf_full_slot cs _ c Hw Ec) as [->|[[v ->]|Hc]].
+      - inversion Eu; subst. left; reflexivity.
+      - discriminate.
+      - destruct (unset_pwf _ _ _ _ Hc Eu) as [->|(s' & -> & Hs')]; [left; reflexivity|]. simpl.
+        inversion Hw as [| |? L17 C V]; subst.
+        destruct (Nat.eq_dec j 16) as [E16|Hne].
+        + rewrite E16 in Ec. destruct (V c Ec) as [->|(v & -> & _)]; inversion Hc.
+        + right; right. split; [|exact Hs'].
+          assert (j < 17)%nat by (rewrite <- L17; apply nth_error_Some; congruence). lia. }
+    destruct (if is_empty ln || is_empty rn then Some true else iface_neq l0 r0 ln rn) as [[|]|] eqn:Fk; [| |discriminate].
+    + unfold ui_fork in E. cbv zeta in E. unfold child in E.
+      destruct (nth_error (clear_range _ _ cs) (N.to_nat l0)) as [c1|] eqn:Ec1; [|discriminate].
+      destruct (unset c1 lr false) as [a1|e] eqn:E1; [|discriminate].
+      destruct (apply_act _ l0 a1) as [cs2|] eqn:A1; [|discriminate].
+      destruct (apply_act_nth _ _ _ _ A1) as [L2 N2].
+      destruct (nth_error cs2 (N.to_nat r0)) as [c2|] eqn:Ec2; [|discriminate].
+      destruct (unset c2 rr0 true) as [a2|e] eqn:E2; [|discriminate].
+      destruct (apply_act cs2 r0 a2) as [cs3|] eqn:A2; [|discriminate].
+      destruct (apply_act_nth _ _ _ _ A2) as [L3 N3].
+      inversion E; subst a. right. eexists. split; [reflexivity|].
+      (* cs2 is a legitimate update of cs, cs3 of cs2 *)
+      assert (Hcs1 : forall j x, nth_error (clear_range (N.to_nat l0 + 1) (N.to_nat r0) cs) j = Some x ->
+                x = NEmpty \/ nth_error cs j = Some x).
+      { intros j x Ex. rewrite clear_range_nth in Ex. destruct (nth_error cs j) as [y|]; [|discriminate].
+        inversion Ex. destruct (_ && _); auto. }
+      assert (P2 : pwf (NFull cs2)).
+      { apply (pwf_full_update cs); [exact Hw|rewrite L2; apply clear_range_length|].
+        intros j x Ex. rewrite N2 in Ex. destruct (Nat.eqb j (N.to_nat l0)) eqn:B.
+        - apply Nat.eqb_eq in B. subst j. inversion Ex; subst x.
+          destruct (Hcs1 _ _ Ec1) as [->|Ec1'].
+          + inversion E1; subst. left; reflexivity.
+          + apply (Hslot _ _ _ _ _ Ec1' E1).
+        - destruct (Hcs1 _ _ Ex); auto. }
+      apply (pwf_full_update cs2); [exact P2|exact L3|].
+      intros j x Ex. rewrite N3 in Ex. destruct (Nat.eqb j (N.to_nat r0)) eqn:B; [|auto].
+      apply Nat.eqb_eq in B. subst j. inversion Ex; subst x.
+      destruct (pwf_full_slot cs2 _ c2 P2 Ec2) as [->|[[v ->]|Hc]].
+      * inversion E2; subst. left; reflexivity.
+      * discriminate.
+      * destruct (unset_pwf _ _ _ _ Hc E2) as [->|(s' & -> & Hs')]; [left; reflexivity|]. simpl.
+        inversion P2 as [| |? L17 C V]; subst.
+        destruct (Nat.eq_dec (N.to_nat r0) 16) as [E16|Hne].
+        -- rewrite E16 in Ec2. destruct (V c2 Ec2) as [->|(v & -> & _)]; inversion Hc.
+        -- right; right. split; [|exact Hs'].
+           assert (N.to_nat r0 < 17)%nat by (rewrite <- L17; apply nth_error_Some; congruence). lia.
+    + destruct (unset_internal ln lr rr0) as [a0|e] eqn:Eu; [|discriminate].
+      destruct (apply_act cs l0 a0) as [cs2|] eqn:A; [|discriminate].
+      destruct (apply_act_nth _ _ _ _ A) as [L2 N2].
+      inversion E; subst a. right. eexists. split; [reflexivity|].
+      apply (pwf_full_update cs); [exact Hw|exact L2|].
+      intros j x Ex. rewrite N2 in Ex. destruct (Nat.eqb j (N.to_nat l0)) eqn:B; [|auto].
+      apply Nat.eqb_eq in B. subst j. inversion Ex; subst x.
+      destruct (pwf_full_slot cs _ ln Hw Eln) as [->|[[v ->]|Hc]]; try discriminate.
+      rewrite Forall_forall in IH. destruct (IH ln (nth_error_In _ _ Eln) _ _ _ Hc Eu) as [->|(s' & -> & Hs')]; [left; reflexivity|].
+      simpl. inversion Hw as [| |? L17 C V]; subst.
+      destruct (Nat.eq_dec (N.to_nat l0) 16) as [E16|Hne].
+      * rewrite E16 in Eln. destruct (V ln Eln) as [->|(v & -> & _)]; inversion Hc.
+      * right; right. split; [|exact Hs'].
+        assert (N.to_nat l0 < 17)%nat by (rewrite <- L17; apply nth_error_Some; congruence). lia.
+Qed.
+
+Lemma small_firstn n (l : list N) : small l -> small (firstn n l).
+Proof.
+  unfold small, lenN. intros Hs. assert (length (firstn n l) <= length l)%nat by (rewrite firstn_length; apply Nat.le_min_r).
+  remember (2 ^ 32) as B. lia.
+Qed.
+Lemma small_skipn n (l : list N) : small l -> small (skipn n l).
+Proof.
+  unfold small, lenN. intros Hs. assert (length (skipn n l) <= length l)%nat by (rewrite skipn_length; lia).
+  remember (2 ^ 32) as B. lia.
+Qed.
+
+Lemma szi_inil k c : small k -> c <> NEmpty -> szi c -> szi (inil k c) /\ inil k c <> NEmpty.
+Proof. intros Hk Hne Hc. unfold inil. destruct k; [auto|]. split; [cbn [szi]; auto|discriminate]. Qed.
+
+Lemma szi_set cs i x cs2 : szi (NFull cs) -> szi x -> set_child cs i x = Some cs2 -> szi (NFull cs2).
+Proof.
+  rewrite !szi_full. intros Hcs Hx E. unfold set_child in E. destruct (set_nth_spec _ _ _ _ E) as [_ N2].
+  intros j c Ej. rewrite N2 in Ej. destruct (Nat.eqb j (N.to_nat i)); [inversion Ej; subst; exact Hx|eapply Hcs; exact Ej].
+Qed.
+
+Lemma szi_empty17 : szi (NFull empty17).
+Proof. apply szi_full. intros i c E. apply nth_error_empty17 in E. subst. exact I. Qed.
+
+Lemma insert_szi : forall fuel n prefix key v d n' ev,
+  szi n -> val_ok v -> small key ->
+  insert no_resolve fuel n prefix key (NValue v) = TOk (d, n', ev) -> szi n' /\ n' <> NEmpty.
+Proof.
+  induction fuel as [|f IH]; intros n prefix key v d n' ev Hz Hv Hk E; [discriminate|].
+  destruct key as [|k0 kr].
+  - destruct n; cbn in E; inversion E; subst; (split; [exact Hv|discriminate]).
+  - destruct n as [|v0|nk nv|cs|h].
+    + cbn in E. inversion E; subst. split; [cbn [szi]; split; [exact Hk|split; [discriminate|exact Hv]]|discriminate].
+    + discriminate.
+    + cbn [szi] in Hz. destruct Hz as (Hnk & Hne & Hnv).
+      rewrite insert_short_unfold in E by discriminate. cbv zeta in E.
+      destruct (Nat.eqb (prefix_len (k0 :: kr) nk) (length nk)).
+      * destruct (insert no_resolve f nv _ _ _) as [[[d0 nn] ev0]|e] eqn:Ei; [|discriminate].
+        destruct (IH _ _ _ _ _ _ _ Hnv Hv (small_skipn _ _ Hk) Ei) as [Hnn Hnn'].
+        destruct d0; inversion E; subst; (split; [cbn [szi]; auto|discriminate]).
+      * destruct (nth_error nk _) as [a|]; [|discriminate]. destruct (nth_error (k0 :: kr) _) as [b|]; [|discriminate].
+        rewrite (surjective_pairing (insert_nil _ (skipn _ nk) nv)) in E.
+        rewrite (surjective_pairing (insert_nil _ (skipn _ (k0 :: kr)) (NValue v))) in E.
+        rewrite !insert_nil_fst in E.
+        destruct (set_child empty17 a _) as [cs1|] eqn:S1; [|discriminate].
+        destruct (set_child cs1 b _) as [cs2|] eqn:S2; [|discriminate].
+        destruct (szi_inil (skipn (prefix_len (k0 :: kr) nk + 1) nk) nv (small_skipn _ _ Hnk) Hne Hnv) as [Z1 _].
+        destruct (szi_inil (skipn (prefix_len (k0 :: kr) nk + 1) (k0 :: kr)) (NValue v) (small_skipn _ _ Hk)
+                    ltac:(discriminate) Hv) as [Z2 _].
+        pose proof (szi_set _ _ _ _ szi_empty17 Z1 S1) as Zc1.
+        pose proof (szi_set _ _ _ _ Zc1 Z2 S2) as Zc2.
+        destruct (Nat.eqb (prefix_len (k0 :: kr) nk) 0); inversion E; subst; (split; [|discriminate]); [exact Zc2|].
+        cbn [szi]. split; [apply small_firstn; exact Hk|]. split; [discriminate|exact Zc2].
+    + rewrite insert_full_unfold' in E. unfold child in E.
+      destruct (nth_error cs (N.to_nat k0)) as [c|] eqn:Ec; [|discriminate].
+      destruct (insert no_resolve f c _ _ _) as [[[d0 nn] ev0]|e] eqn:Ei; [|discriminate].
+      assert (Hc : szi c) by (rewrite szi_full in Hz; eapply Hz; exact Ec).
+      assert (Hkr : small kr) by (apply (small_app_r [k0]); exact Hk).
+      destruct (IH _ _ _ _ _ _ _ Hc Hv Hkr Ei) as [Hnn _].
+      destruct d0.
+      * destruct (set_child cs k0 nn) as [cs2|] eqn:S1; [|discriminate]. inversion E; subst.
+        split; [eapply szi_set; eassumption|discriminate].
+      * inversion E; subst. split; [exact Hz|discriminate].
+    + cbn in E. discriminate.
+Qed.
+
+Lemma apply_ops_at ops : forall m m' k, m k = m' k -> apply_ops m ops k = apply_ops m' ops k.
+Proof.
+  induction ops as [|[k0 v0] ops IH]; intros m m' k E; [exact E|]. simpl. apply IH.
+  unfold put. destruct (bytes_eqb k k0); [reflexivity|exact E].
+Qed.
+
+(* re-insertion of the run into a well-formed full trie *)
+Lemma reinsert_full keys : forall values s s3,
+  (s = NEmpty \/ pwf s) ->
+  Forall (fun k => forallb byteb k = true /\ small (keybytes_to_hex k)) keys ->
+  Forall val_ok values ->
+  reinsert s keys values = Rok s3 ->
+  (s3 = NEmpty \/ pwf s3) /\
+  forall hk, lk s3 hk = apply_ops (lk s) (hexops (combine keys values)) hk.
+Proof.
+  induction keys as [|k kr IH]; intros values s s3 Hs HK HV E.
+  - inversion E; subst. split; [exact Hs|reflexivity].
+  - destruct values as [|v vr]; [discriminate|]. cbn [reinsert] in E.
+    inversion HK as [|? ? [Hb Hsm] HK']; subst. inversion HV as [|? ? Hv HV']; subst.
+    unfold update in E. cbv zeta in E. destruct v as [|b0 v]; [destruct Hv; congruence|].
+    set (hk0 := keybytes_to_hex k) in *.
+    assert (Vk : valid_key hk0) by (apply keybytes_to_hex_valid; exact Hb).
+    assert (Hwf : wfpos s hk0).
+    { right. split; [exact Vk|]. destruct Hs as [->|Hp]; [constructor|apply pwf_wfn; exact Hp]. }
+    destruct (insert_spec no_resolve _ s [] hk0 (b0 :: v) (ops_fuel_ok hk0) Hwf)
+      as (d & s1 & ev & Ei & P1 & P2 & P3 & P4 & _).
+    rewrite Ei in E.
+    assert (Hz : szi s) by (destruct Hs as [->|Hp]; [exact I|apply pwf_szi; exact Hp]).
+    destruct (insert_szi _ _ _ _ _ _ _ _ Hz Hv Hsm Ei) as [Hz1 _].
+    assert (Hs1 : s1 = NEmpty \/ pwf s1).
+    { apply wfn_szi_pwf; [|exact Hz1]. destruct P1 as [[-> _]|[_ Hw1]]; [destruct Vk|exact Hw1]. }
+    destruct (IH vr s1 s3 Hs1 HK' HV' E) as [R1 R2]. split; [exact R1|].
+    intros hk. rewrite R2. cbn [combine hexops map fst snd apply_ops]. fold (hexops (combine kr vr)). fold hk0.
+    apply apply_ops_at. unfold put. destruct (bytes_eqb hk hk0) eqn:B.
+    + apply bytes_eqb_eq in B. subst hk. exact P3.
+    + apply P4. intros ->. rewrite bytes_eqb_refl in B. discriminate.
+Qed.
+
+Section SimReinsert.
+  Variable H : list N -> list N.
+  Lemma reinsert_sim keys : forall values p s p3,
+    pv H p s -> Forall (fun v => v <> []) values ->
+    reinsert p keys values = Rok p3 ->
+    exists s3, reinsert s keys values = Rok s3 /\ pv H p3 s3.
+  Proof.
+    induction keys as [|k kr IH]; intros values p s p3 Hp HV E.
+    - inversion E; subst. exists s. split; [reflexivity|exact Hp].
+    - destruct values as [|v vr]; [discriminate|]. cbn [reinsert] in E |- *.
+      inversion HV as [|? ? Hv HV']; subst. unfold update in E |- *. cbv zeta in E |- *.
+      destruct v as [|b0 v]; [congruence|].
+      destruct (insert no_resolve _ p [] _ _) as [[[d p1] ev]|e] eqn:Ei; [|discriminate].
+      destruct (insert_sim H _ _ _ _ _ _ _ _ _ Hp Ei) as (s1 & ev' & -> & Hp1).
+      apply (IH vr p1 s1 p3 Hp1 HV' E).
+  Qed.
+End SimReinsert.
+
+(* ------------------------------------------------------------------ the two-edge branch: soundness *)
+
+Lemma last_opt_in {A} (l : list A) x : last_opt l = Some x -> In x l.
+Proof.
+  induction l as [|a l IH]; [discriminate|]. destruct l as [|b l]; simpl.
+  - intros E. inversion E. left; reflexivity.
+  - intros E. right. apply IH. exact E.
+Qed.
+
+Section General.
+  Variable H : list N -> list N.
+  Hypothesis H_len : forall x, length (H x) = 32%nat.
+  Variable db : pdb.
+  Variable P : list N -> Prop.
+  Hypothesis faithful : forall e b, P e -> db_get db (H e) = Some b -> b = e.
+  Variable NS : list N -> Prop.
+  Hypothesis H_inj : H_inj_on H NS.
+
+  Variable t : node.
+  Variable r : list N.
+  Hypothesis Hcan : can t.
+  Hypothesis Hok : content_ok t.
+  Hypothesis Hroot : hash_root H t = Some r.
+  Hypothesis HP : forall e, genuine H t e -> P e.
+
+  Lemma hash_root_pv' p s : pv H p s -> (s = NEmpty \/ pwf s) -> hash_root H p = hash_root H s.
+  Proof.
+    intros Hp Hs. destruct p as [|v|k c|cs|h].
+    - apply (hash_root_pv H H_len); auto.
+    - apply pv_value_inv in Hp. subst s. destruct Hs as [?|Hw]; [discriminate|inversion Hw].
+    - apply (hash_root_pv H H_len); [exact Hp|right; exact I].
+    - apply (hash_root_pv H H_len); [exact Hp|right; exact I].
+    - inversion Hp as [| |t0 e Hw Ee Le| |]; subst. rewrite (pwf_hash_root H s e Hw Ee). reflexivity.
+  Qed.
+
+  (* range_sound_general: whatever proof nodes the (collision-free, hash-keyed) database
+     holds, if the two-edge branch accepts then the run is exactly the content of the trie
+     on the closed interval [firstKey, lastKey] *)
+  Theorem range_sound_general first last keys values Lb b :
+    keys_fixed t Lb -> (0 < Lb)%nat -> N.of_nat Lb < 2 ^ 30 ->
+    length first = Lb -> forallb byteb first = true ->
+    Forall (fun k => length k = Lb /\ forallb byteb k = true) keys -> Forall small values ->
+    last_opt keys = Some last ->
+    ((2 <= length keys)%nat \/ last <> first) ->
+    NS empty_root_preimage -> (forall e, genuine H t e -> NS e) ->
+    (forall a s3, unset_internal t (keybytes_to_hex first) (keybytes_to_hex last) = Rok a ->
+                  reinsert (act_node a) keys values = Rok s3 -> forall e, genuine H s3 e -> NS e) ->
+    verify_range_proof H r first keys values (Some db) = Rok b ->
+    (forall hk, between (keybytes_to_hex first) (keybytes_to_hex last) hk -> lk t hk = run_map keys values hk) /\
+    (b = true <-> has_gt t (keybytes_to_hex last)).
+  Proof.
+    intros Hfix HL0 HLs Hlf Hbf HK HV Hlast Hgen N0 Nt Ns3 A.
+    pose proof (can_pwf t Hcan Hok) as Hw.
+    assert (HKl : Forall (fun k => length k = Lb) keys) by (eapply Forall_impl; [|exact HK]; intros k [? _]; assumption).
+    assert (Hlin : In last keys) by (apply last_opt_in; exact Hlast).
+    assert (Hll : length last = Lb /\ forallb byteb last = true) by (rewrite Forall_forall in HK; apply HK; exact Hlin).
+    destruct Hll as [Hll Hbl].
+    unfold verify_range_proof in A.
+    destruct (Nat.eqb (length keys) (length values)) eqn:El; [|discriminate]. apply Nat.eqb_eq in El. cbn [negb] in A.
+    destruct (check_run keys values) eqn:C; [discriminate|].
+    apply (check_run_spec Lb keys values HKl El) in C. destruct C as [Hsorted Hne].
+    destruct keys as [|k0 kr]; [discriminate|]. destruct values as [|v0 vr]; [discriminate|].
+    destruct (slice_lt k0 first); [discriminate|]. rewrite Hlast in A.
+    assert (Hbr : Nat.eqb (length (k0 :: kr)) 1 && bytes_eqb first last = false).
+    { destruct Hgen as [Hg|Hg].
+      - replace (Nat.eqb (length (k0 :: kr)) 1) with false; [reflexivity|]. symmetry. apply Nat.eqb_neq. lia.
+      - replace (bytes_eqb first last) with false; [apply andb_false_r|]. symmetry.
+        destruct (bytes_eqb first last) eqn:B; [|reflexivity]. apply bytes_eqb_eq in B. congruence. }
+    rewrite Hbr in A.
+    destruct (slice_lt first last) eqn:Hlt; [|discriminate]. cbn [negb] in A.
+    destruct (Nat.eqb (length first) (length last)); [|discriminate]. cbn [negb] in A.
+    (* the first edge *)
+    destruct (ptp_root H H_len db P faithful t r Hcan Hok Hroot HP first true Hbf) as [[_ E1]|[_ Q1]];
+      [rewrite E1 in A; discriminate|].
+    destruct (proof_to_path db r None first true) as [[root1 val1]|e1]; [|discriminate].
+    cbn [ptp_post] in Q1. destruct Q1 as (Pv1 & In1 & _).
+    (* the second edge, merged into the same tree *)
+    unfold proof_to_path in A at 1. cbv zeta in A.
+    pose proof (ptp_spec H H_len db P faithful _ root1 t (keybytes_to_hex last) true Pv1 Hw In1
+                  (keybytes_to_hex_valid _ Hbl) (ptp_fuel_ok _ db) HP) as Q2.
+    destruct (ptp (ptp_fuel (keybytes_to_hex last) db) db true root1 (keybytes_to_hex last)) as [[root2 val2]|e2]; [|discriminate].
+    cbn [ptp_post] in Q2. destruct Q2 as (Pv2 & In2 & _).
+    (* unsetInternal *)
+    destruct (unset_internal root2 (keybytes_to_hex first) (keybytes_to_hex last)) as [act|e3] eqn:E3; [|discriminate].
+    destruct (unset_internal_sim H _ _ _ _ _ Pv2 E3) as (act' & E3' & Hact).
+    pose proof (pvact_node H _ _ Hact) as Pv3.
+    change (match act with URemove => NEmpty | UKeep r0 => r0 end) with (act_node act) in A.
+    (* re-insertion *)
+    destruct (reinsert (act_node act) (k0 :: kr) (v0 :: vr)) as [root3|e4] eqn:E4; [|discriminate].
+    destruct (reinsert_sim H _ _ _ _ _ Pv3 Hne E4) as (s3 & E4' & Pv4).
+    assert (Hs1 : act_node act' = NEmpty \/ pwf (act_node act')).
+    { destruct (unset_internal_pwf _ _ _ _ Hw E3') as [->|(s' & -> & Hs')]; [left; reflexivity|right; exact Hs']. }
+    assert (HKs : Forall (fun k => forallb byteb k = true /\ small (keybytes_to_hex k)) (k0 :: kr)).
+    { eapply Forall_impl; [|exact HK]. intros k [Hk1 Hk2]. split; [exact Hk2|].
+      unfold small, lenN. rewrite hex_length, Hk1. lia. }
+    assert (HVs : Forall val_ok (v0 :: vr)).
+    { rewrite Forall_forall in HV, Hne |- *. intros v Hv. split; [apply Hne; exact Hv|apply HV; exact Hv]. }
+    destruct (reinsert_full _ _ _ _ Hs1 HKs HVs E4') as [Hs3 Hlk3].
+    (* the root hash pins the rebuilt trie to the true one *)
+    destruct (hash_root H root3) as [have|] eqn:E5; [|discriminate].
+    destruct (bytes_eqb have r) eqn:B; [|discriminate]. apply bytes_eqb_eq in B. subst have.
+    rewrite (hash_root_pv' _ _ Pv4 Hs3) in E5.
+    assert (s3 = t).
+    { apply (hash_root_inj H H_len NS H_inj s3 t r); auto. eapply Ns3; eassumption. }
+    subst s3. split.
+    - intros hk Hbet. rewrite Hlk3. unfold run_map. apply apply_ops_at.
+      apply (unset_internal_spec t (keybytes_to_hex first) (keybytes_to_hex last) act'); auto.
+      + right; right; exact Hw.
+      + rewrite hex_length, Hlf. apply keys_fixed_ulen. exact Hfix.
+      + rewrite !hex_length. lia.
+      + apply keybytes_to_hex_valid; exact Hbf.
+      + apply keybytes_to_hex_valid; exact Hbl.
+      + rewrite slice_lt_hex; auto. lia.
+    - destruct (has_right root3 (keybytes_to_hex last)) as [b0|e5] eqn:E6; [|discriminate].
+      cbn [of_tres] in A. inversion A; subst b0.
+      destruct (has_right_spec H H_len t root3 (keybytes_to_hex last) (or_intror (or_intror Hcan)) Pv4
+                  (or_intror (ex_intro _ b E6))) as (b1 & Eb & Hb).
+      + rewrite hex_length, Hll. apply keys_fixed_ulen. exact Hfix.
+      + right. apply keybytes_to_hex_valid; exact Hbl.
+      + rewrite E6 in Eb. inversion Eb; subst b1. exact Hb.
+  Qed.
+End General.
+
+(* ------------------------------------------------------------------ the statements as used by Properties/C09.v *)
+
+Theorem range_empty_sound_complete (H : list N -> list N) (H_len : forall x, length (H x) = 32%nat)
+  (db : pdb) (P : list N -> Prop) (faithful : forall e b, P e -> db_get db (H e) = Some b -> b = e)
+  t r first :
+  can t -> content_ok t -> hash_root H t = Some r -> (forall e, genuine H t e -> P e) ->
+  forallb byteb first = true -> ulen t (length (keybytes_to_hex first)) ->
+  (forall b, verify_range_proof H r first [] [] (Some db) = Rok b ->
+             b = false /\ none_from t (keybytes_to_hex first)) /\
+  (none_from t (keybytes_to_hex first) -> db_get db r <> None ->
+   ~ missing_on H db t (keybytes_to_hex first) ->
+   verify_range_proof H r first [] [] (Some db) = Rok false).
+Proof.
+  intros Hc Hok Hr HP Hb Hu. split.
+  - intros b. eapply range_empty_sound; eassumption.
+  - eapply range_empty_complete; eassumption.
+Qed.
+
+Theorem range_single_sound_complete (H : list N -> list N) (H_len : forall x, length (H x) = 32%nat)
+  (db : pdb) (P : list N -> Prop) (faithful : forall e b, P e -> db_get db (H e) = Some b -> b = e)
+  t r first v :
+  can t -> content_ok t -> hash_root H t = Some r -> (forall e, genuine H t e -> P e) ->
+  forallb byteb first = true -> ulen t (length (keybytes_to_hex first)) ->
+  (forall b, verify_range_proof H r first [first] [v] (Some db) = Rok b ->
+             lk t (keybytes_to_hex first) = Some v /\ (b = true <-> has_gt t (keybytes_to_hex first))) /\
+  (lk t (keybytes_to_hex first) = Some v -> db_get db r <> None ->
+   ~ missing_on H db t (keybytes_to_hex first) ->
+   exists b, verify_range_proof H r first [first] [v] (Some db) = Rok b /\
+             (b = true <-> has_gt t (keybytes_to_hex first))).
+Proof.
+  intros Hc Hok Hr HP Hb Hu. split.
+  - intros b. eapply range_single_sound; eassumption.
+  - eapply range_single_complete; eassumption.
+Qed.
+
+(* the two-edge branch over ANY hash-keyed proof database whose blobs lie in the
+   collision-free set NS (genuine nodes with omissions, nodes of other tries, garbage) *)
+Theorem range_sound_general_keyed (H : list N -> list N) (H_len : forall x, length (H x) = 32%nat)
+  (NS : list N -> Prop) (H_inj : H_inj_on H NS) db t r first last keys values Lb b :
+  db_keyed H db -> db_in NS db ->
+  can t -> content_ok t -> hash_root H t = Some r ->
+  keys_fixed t Lb -> (0 < Lb)%nat -> N.of_nat Lb < 2 ^ 30 ->
+  length first = Lb -> forallb byteb first = true ->
+  Forall (fun k => length k = Lb /\ forallb byteb k = true) keys -> Forall small values ->
+  last_opt keys = Some last ->
+  ((2 <= length keys)%nat \/ last <> first) ->
+  NS empty_root_preimage -> (forall e, genuine H t e -> NS e) ->
+  (forall a s3, unset_internal t (keybytes_to_hex first) (keybytes_to_hex last) = Rok a ->
+                reinsert (act_node a) keys values = Rok s3 -> forall e, genuine H s3 e -> NS e) ->
+  verify_range_proof H r first keys values (Some db) = Rok b ->
+  (forall hk, between (keybytes_to_hex first) (keybytes_to_hex last) hk -> lk t hk = run_map keys values hk) /\
+  (b = true <-> has_gt t (keybytes_to_hex last)).
+Proof.
+  intros K I Hc Hok Hr Hfix HL0 HLs Hlf Hbf HK HV Hlast Hgen N0 Nt Ns3 A.
+  eapply (range_sound_general H H_len db NS (keyed_faithful H NS H_inj db K I) NS H_inj t r Hc Hok Hr Nt);
+    eassumption.
+Qed.
+
+(* ------------------------------------------------------------------ no panic value: the three special branches *)
+
+(* never a panic, never the model's fuel *)
+Definition no_panic (x : rr bool) : Prop := x <> Rerr RPanic /\ x <> Rerr RFuel.
+
+Lemma check_run_no_panic keys : forall values, length keys = length values ->
+  check_run keys values <> Some RPanic /\ check_run keys values <> Some RFuel.
+Proof.
+  induction keys as [|k kr IH]; intros [|v vr] E; try discriminate; [split; discriminate|].
+  cbn [check_run]. destruct kr as [|k' kr'].
+  - destruct v; [split; discriminate|]. destruct vr; [|discriminate]. split; discriminate.
+  - destruct (negb (slice_lt k k')); [split; discriminate|]. destruct (is_prefix_of k k'); [split; discriminate|].
+    destruct v; [split; discriminate|]. apply IH. simpl in E |- *. lia.
+Qed.
+
+Lemma noproof_total (H : list N -> list N) (H_len : forall x, length (H x) = 32%nat) r first keys values Lb :
+  (0 < Lb)%nat -> N.of_nat Lb < 2 ^ 30 ->
+  Forall (fun k => length k = Lb /\ forallb byteb k = true) keys -> Forall small values ->
+  no_panic (verify_range_proof H r first keys values None).
+Proof.
+  intros HL HLs HF HV.
+  assert (HFl : Forall (fun k => length k = Lb) keys) by (eapply Forall_impl; [|exact HF]; intros k [? _]; assumption).
+  unfold verify_range_proof. destruct (Nat.eqb (length keys) (length values)) eqn:E; cbn [negb]; [|split; discriminate].
+  apply Nat.eqb_eq in E. destruct (check_run keys values) as [e|] eqn:C.
+  - destruct (check_run_no_panic keys values E) as [C1 C2]. rewrite C in C1, C2. split; congruence.
+  - apply (check_run_spec Lb keys values HFl E) in C. destruct C as [Hs Hne].
+    destruct (noproof_core H H_len keys values Lb E HL HLs HF HV Hs Hne) as (s & t' & ev & h & F1 & F2 & _).
+    rewrite F1, F2. destruct (bytes_eqb h r); split; discriminate.
+Qed.
+
+Section EdgeTotal.
+  Variable H : list N -> list N.
+  Hypothesis H_len : forall x, length (H x) = 32%nat.
+  Variable db : pdb.
+  Variable P : list N -> Prop.
+  Hypothesis faithful : forall e b, P e -> db_get db (H e) = Some b -> b = e.
+  Variable t : node.
+  Variable r : list N.
+  Hypothesis Hcan : can t.
+  Hypothesis Hok : content_ok t.
+  Hypothesis Hroot : hash_root H t = Some r.
+  Hypothesis HP : forall e, genuine H t e -> P e.
+  Variable first : list N.
+  Hypothesis Hfirst : forallb byteb first = true.
+  Hypothesis Hulen : ulen t (length (keybytes_to_hex first)).
+
+  Lemma empty_total : no_panic (verify_range_proof H r first [] [] (Some db)).
+  Proof.
+    unfold verify_range_proof. cbn [length Nat.eqb negb check_run].
+    destruct (ptp_root H H_len db P faithful t r Hcan Hok Hroot HP first true Hfirst) as [[_ ->]|[_ Q]]; [split; discriminate|].
+    destruct (proof_to_path db r None first true) as [[root val]|e]; cbn [ptp_post] in Q.
+    - destruct Q as (Q1 & Q2 & Q3 & Q4 & _). destruct val; [split; discriminate|].
+      destruct (has_right_spec H H_len t root _ (or_intror (or_intror Hcan)) Q1 (or_introl Q4) Hulen
+                  (or_intror (keybytes_to_hex_valid _ Hfirst))) as (b0 & -> & _).
+      destruct b0; split; discriminate.
+    - destruct Q as [[-> _]|(_ & A & _)]; [split; discriminate|discriminate].
+  Qed.
+
+  Lemma single_total v : no_panic (verify_range_proof H r first [first] [v] (Some db)).
+  Proof.
+    unfold verify_range_proof. cbn [length Nat.eqb negb check_run].
+    destruct v as [|v0 v]; [split; discriminate|].
+    rewrite slice_lt_irrefl. cbn [last_opt]. rewrite bytes_eqb_refl. cbn [andb negb].
+    destruct (ptp_root H H_len db P faithful t r Hcan Hok Hroot HP first false Hfirst) as [[_ ->]|[_ Q]]; [split; discriminate|].
+    destruct (proof_to_path db r None first false) as [[root val]|e]; cbn [ptp_post] in Q.
+    - destruct Q as (Q1 & Q2 & Q3 & Q4 & Q5).
+      destruct (negb (bytes_eqb _ _)); [split; discriminate|].
+      destruct (has_right_spec H H_len t root _ (or_intror (or_intror Hcan)) Q1 (or_introl Q4) Hulen
+                  (or_intror (keybytes_to_hex_valid _ Hfirst))) as (b0 & -> & _).
+      split; discriminate.
+    - destruct Q as [[-> _]|(-> & _)]; split; discriminate.
+  Qed.
+End EdgeTotal.
+
+(* ------------------------------------------------------------------ the two-edge branch never panics on genuine nodes *)
+
+Lemma can_full_not_len1 cs : can (NFull cs) -> ulen (NFull cs) 1 -> False.
+Proof.
+  intros Hc Hu. destruct (can_full_two_keys _ Hc) as (x1 & r1 & v1 & x2 & r2 & v2 & Hd & K1 & K2 & L1 & L2).
+  pose proof (Hu _ _ L1) as E1. pose proof (Hu _ _ L2) as E2.
+  destruct r1; [|discriminate]. destruct r2; [|discriminate]. simpl in K1, K2. congruence.
+Qed.
+
+(* proofToPath only resolves more: paths resolved before stay resolved *)
+Lemma ptp_res_mono db allow : forall f p key p' v,
+  ptp f db allow p key = Rok (p', v) -> forall k2, res_along p k2 -> res_along p' k2.
+Proof.
+  induction f as [|f IH]; intros p key p' v E k2 R; [discriminate|].
+  cbn [ptp] in E. destruct p as [|v0|nk nv|cs|h]; cbn [ptp_get] in E.
+  - destruct allow; inversion E; subst; exact R.
+  - cbn [ptp_link] in E. discriminate.
+  - destruct (negb (is_prefix_of nk key)).
+    + destruct allow; inversion E; subst; exact R.
+    + assert (Hlift : forall c2, (forall r2, res_along nv r2 -> res_along c2 r2) -> res_along (NShort nk c2) k2).
+      { intros c2 Hc2. cbn [res_along] in R |- *. destruct (is_prefix_of nk k2); [apply Hc2; exact R|exact I]. }
+      destruct nv as [|w|k3 c3|cs3|h3]; cbn [ptp_link] in E.
+      * destruct allow; inversion E; subst; exact R.
+      * destruct w; inversion E; subst; exact R.
+      * destruct (ptp f db allow (NShort k3 c3) _) as [[c2 v2]|e] eqn:Er; [|discriminate]. inversion E; subst.
+        apply Hlift. intros r2. eapply IH; exact Er.
+      * destruct (ptp f db allow (NFull cs3) _) as [[c2 v2]|e] eqn:Er; [|discriminate]. inversion E; subst.
+        apply Hlift. intros r2. eapply IH; exact Er.
+      * destruct (resolve_node db h3) as [c|e]; [|discriminate].
+        destruct (ptp f db allow c _) as [[c2 v2]|e] eqn:Er; [|discriminate]. inversion E; subst.
+        apply Hlift. intros r2 []. 
+  - destruct key as [|k0 kr]; [discriminate|]. unfold child in E.
+    destruct (nth_error cs (N.to_nat k0)) as [c|] eqn:Ec; [|discriminate].
+    assert (Hlift : forall c2 cs2, (forall r2, res_along c r2 -> res_along c2 r2) ->
+              set_child cs k0 c2 = Some cs2 -> res_along (NFull cs2) k2).
+    { intros c2 cs2 Hc2 Es. unfold set_child in Es. destruct (set_nth_spec _ _ _ _ Es) as [_ N2].
+      destruct k2 as [|j r2]; [exact I|]. rewrite res_along_full in R |- *. rewrite N2.
+      destruct (Nat.eqb (N.to_nat j) (N.to_nat k0)) eqn:B; [|exact R].
+      apply Nat.eqb_eq in B. rewrite B, Ec in R. apply Hc2. exact R. }
+    destruct c as [|w|k3 c3|cs3|h3]; cbn [ptp_link] in E.
+    + destruct allow; inversion E; subst; exact R.
+    + destruct (set_child cs k0 (NValue w)) as [cs2|] eqn:Es; [|discriminate].
+      destruct w; inversion E; subst. eapply Hlift; [|exact Es]. auto.
+    + destruct (ptp f db allow (NShort k3 c3) _) as [[c2 v2]|e] eqn:Er; [|discriminate].
+      destruct (set_child cs k0 c2) as [cs2|] eqn:Es; [|discriminate]. inversion E; subst.
+      eapply Hlift; [|exact Es]. intros r2. eapply IH; exact Er.
+    + destruct (ptp f db allow (NFull cs3) _) as [[c2 v2]|e] eqn:Er; [|discriminate].
+      destruct (set_child cs k0 c2) as [cs2|] eqn:Es; [|discriminate]. inversion E; subst.
+      eapply Hlift; [|exact Es]. intros r2. eapply IH; exact Er.
+    + destruct (resolve_node db h3) as [c|e]; [|discriminate].
+      destruct (set_child cs k0 c) as [cs1|]; [|discriminate].
+      destruct (ptp f db allow c _) as [[c2 v2]|e] eqn:Er; [|discriminate].
+      destruct (set_child cs k0 c2) as [cs2|] eqn:Es; [|discriminate]. inversion E; subst.
+      eapply Hlift; [|exact Es]. intros r2 [].
+  - destruct (resolve_node db h) as [c|e]; [|discriminate]. cbn [ptp_link] in E. discriminate.
+Qed.
+
+Section Progress.
+  Variable H : list N -> list N.
+  Hypothesis H_len : forall x, length (H x) = 32%nat.
+  Notation pv := (pv H).
+
+  Definition is_full (n : node) : Prop := match n with NFull _ => True | _ => False end.
+
+  (* unset on the resolved path of a canonical trie with keys of one length never panics;
+     a branch is never removed *)
+  Lemma unset_progress t : forall p key rl,
+    (t = NEmpty \/ can t) -> pv p t -> res_along p key -> ulen t (length key) ->
+    (key = [] \/ valid_key key) ->
+    exists a, unset p key rl = TOk a /\ (is_full p -> exists x, a = UKeep x).
+  Proof.
+    induction t as [|v|nk c' IH|cs' IH|h] using node_ind'; intros p key rl Ht Hp Hr Hu Hk.
+    - apply pv_empty_r in Hp. subst p. eexists. split; [reflexivity|intros []].
+    - destruct Ht as [?|Hc]; [discriminate|inversion Hc].
+    - destruct Ht as [?|Hcan]; [discriminate|].
+      inversion Hp as [| |t0 e Hw Ee Le|k0 c0 x Hc|]; subst; [destruct Hr|].
+      cbn [unset res_along] in *. pose proof (is_prefix_strip nk key) as Sp.
+      destruct (strip nk key) as [rest|] eqn:E.
+      + destruct Sp as [S1 S2]. rewrite S1 in *. rewrite S2 in *. cbn [negb]. apply strip_some in E. subst key.
+        destruct (can_short_inv _ _ Hcan) as [[Vk [v ->]]|(Nk & Nne & cs & -> & Hc')].
+        * apply pv_value_r in Hc. subst c0. eexists. split; [reflexivity|intros []].
+        * assert (Hu' : ulen (NFull cs) (length rest)).
+          { intros r0 v L. specialize (Hu (nk ++ r0) v). rewrite lk_short, strip_app_same in Hu.
+            specialize (Hu L). rewrite !app_length in Hu. lia. }
+          assert (Hk' : rest = [] \/ valid_key rest).
+          { destruct rest as [|a rest]; [left; reflexivity|right]. destruct Hk as [Hk|Hk]; [destruct nk; discriminate|].
+            apply (valid_key_app_inv _ _ Hk). discriminate. }
+          inversion Hc as [| |t0 e Hw Ee Le| |cs0 cs1 Hl Hcs]; subst; [destruct Hr|].
+          destruct (IH (NFull cs0) rest rl (or_intror Hc') Hc Hr Hu' Hk') as (a & Ea & Hfull).
+          destruct (Hfull I) as (x & ->). rewrite Ea. eexists. split; [reflexivity|intros []].
+      + rewrite Sp. cbn [negb]. destruct rl; [destruct (slice_lt nk key)|destruct (slice_lt key nk)];
+          eexists; (split; [reflexivity|intros []]).
+    - destruct Ht as [?|Hcan]; [discriminate|].
+      inversion Hp as [| |t0 e Hw Ee Le| |cs0 cs1 Hl Hcs]; subst; [destruct Hr|].
+      destruct (can_full_inv _ Hcan) as (L17 & Hch & Hv16 & _).
+      destruct key as [|k0 kr].
+      { exfalso. destruct (can_has_key _ Hcan) as (kx & vx & Vkx & Lx). specialize (Hu _ _ Lx). destruct kx; [destruct Vkx|discriminate]. }
+      destruct Hk as [?|Hk]; [discriminate|]. apply valid_key_cons in Hk.
+      assert (Hk0 : k0 < 16 /\ valid_key kr).
+      { destruct Hk as [[-> ->]|Hk]; [|exact Hk]. exfalso. apply (can_full_not_len1 _ Hcan Hu). }
+      destruct Hk0 as [Hk0 Vkr].
+      rewrite unset_full. cbv zeta. rewrite res_along_full in Hr.
+      destruct (nth_error cs0 (N.to_nat k0)) as [c|] eqn:Ec; [|apply nth_error_None in Ec; lia].
+      destruct (nth_error cs' (N.to_nat k0)) as [c'|] eqn:Ec'; [|apply nth_error_None in Ec'; lia].
+      assert (Hu' : ulen c' (length kr)).
+      { intros r0 v L. specialize (Hu (k0 :: r0) v). rewrite lk_full, Ec' in Hu. specialize (Hu L). simpl in Hu. lia. }
+      rewrite Forall_forall in IH.
+      destruct (IH c' (nth_error_In _ _ Ec') c kr rl (Hch _ _ Ec' ltac:(lia)) (Hcs _ _ _ Ec Ec') Hr Hu' (or_intror Vkr))
+        as (a & -> & _).
+      match goal with |- context [apply_act ?l k0 a] => destruct (apply_act l k0 a) as [cs2|] eqn:Ea end.
+      + eexists. split; [reflexivity|]. intros _. eauto.
+      + exfalso. rewrite apply_act_node in Ea. unfold set_child in Ea.
+        match type of Ea with set_nth _ _ ?l = None => destruct (set_nth_some (N.to_nat k0) (act_node a) l) as [? E2] end;
+          [destruct rl; rewrite clear_range_length; lia|congruence].
+    - destruct Ht as [?|Hc]; [discriminate|inversion Hc].
+  Qed.
+End Progress.
+
+Lemma apply_act_some cs i a : (N.to_nat i < length cs)%nat -> exists cs2, apply_act cs i a = Some cs2.
+Proof. intros Hi. rewrite apply_act_node. unfold set_child. apply set_nth_some. exact Hi. Qed.
+
+Section Progress2.
+  Variable H : list N -> list N.
+  Hypothesis H_len : forall x, length (H x) = 32%nat.
+  Notation pv := (pv H).
+
+  (* the shape of a resolved slot of a canonical trie below slot 16 *)
+  Lemma pv_slot_shape p c' : pv p c' -> (c' = NEmpty \/ can c') ->
+    p = NEmpty \/ inner_shape p \/ exists h, p = NHash h.
+  Proof.
+    intros Hp [->|Hc].
+    - apply pv_empty_r in Hp. left; exact Hp.
+    - inversion Hp; subst; try solve [inversion Hc]; [right; right; eauto|right; left; exact I|right; left; exact I].
+  Qed.
+
+  Lemma unset_internal_progress t : forall p left right,
+    can t -> pv p t -> res_along p left -> res_along p right ->
+    ulen t (length left) -> length left = length right ->
+    valid_key left -> valid_key right -> slice_lt left right = true ->
+    (exists a, unset_internal p left right = Rok a /\ (is_full p -> exists x, a = UKeep x)) \/
+    unset_internal p left right = Rerr REmptyRange.
+  Proof.
+    induction t as [|v|rk c' IH|cs' IH|h] using node_ind'; intros p left right Hcan Hp Rl Rr Hu Hlen Vl Vr Hlt;
+      try solve [inversion Hcan].
+    - (* short *)
+      inversion Hp as [| |t0 e Hw Ee Le|k0 c0 x Hc|]; subst; [destruct Rl|].
+      cbn [unset_internal]. cbv zeta.
+      assert (Hpre : forall key, bcmp (firstn (length rk) key) rk = Eq ->
+                key = rk ++ skipn (length rk) key /\ is_prefix_of rk key = true).
+      { intros key Hb. apply bcmp_eq in Hb. pose proof (firstn_eq_split _ _ Hb) as Es. split; [exact Es|].
+        pose proof (is_prefix_strip rk key) as Sp. rewrite Es, strip_app_same in Sp. destruct Sp as [Sp _]. rewrite <- Es in Sp. exact Sp. }
+      assert (Hedge : forall key rl, (key = left \/ key = right) -> bcmp (firstn (length rk) key) rk = Eq ->
+                exists a, match c0 with
+                | NValue _ => Rok URemove
+                | _ => match unset c0 (skipn (length rk) key) rl with
+                       | TErr e => Rerr (of_terr e)
+                       | TOk (UKeep x) => Rok (UKeep (NShort rk x))
+                       | TOk URemove => Rerr RPanic
+                       end
+                end = Rok a).
+      { intros key rl Hkey Hb. destruct (Hpre key Hb) as [Es Hpf].
+        assert (Vk : valid_key key) by (destruct Hkey; subst key; assumption).
+        assert (Rk : res_along (NShort rk c0) key) by (destruct Hkey; subst key; assumption).
+        assert (Lk : length key = length left) by (destruct Hkey; subst key; [reflexivity|symmetry; exact Hlen]).
+        cbn [res_along] in Rk. rewrite Hpf in Rk.
+        destruct (can_short_inv _ _ Hcan) as [[Vrk [v ->]]|(Nk & Nne & cs & -> & Hc')].
+        - apply pv_value_r in Hc. subst c0. eauto.
+        - inversion Hc as [| |t0 e Hw Ee Le| |cs0 cs1 Hl Hcs]; subst; [destruct Rk|].
+          set (rest := skipn (length rk) key) in *.
+          assert (Hrest : rest <> []).
+          { intros Er. rewrite Er, app_nil_r in Es. rewrite Es in Vk. exact (valid_key_not_nibbles _ Vk Nk). }
+          assert (Vrest : valid_key rest) by (rewrite Es in Vk; apply (valid_key_app_inv _ _ Vk Hrest)).
+          destruct (unset_progress H H_len (NFull cs) (NFull cs0) rest rl (or_intror Hc') Hc Rk) as (a & Ea & Hf).
+          + intros r0 v L. specialize (Hu (rk ++ r0) v). rewrite lk_short, strip_app_same in Hu. specialize (Hu L).
+            rewrite <- Lk, Es, !app_length in Hu. lia.
+          + right; exact Vrest.
+          + destruct (Hf I) as (x & ->). rewrite Ea. eauto. }
+      destruct (bcmp (firstn (length rk) left) rk) eqn:Fl; destruct (bcmp (firstn (length rk) right) rk) eqn:Fr;
+        try (right; reflexivity);
+        try (left; eexists; split; [reflexivity|intros []]);
+        try (left; destruct (Hedge left false (or_introl eq_refl) Fl) as (a & ->); eexists; split; [reflexivity|intros []]);
+        try (left; destruct (Hedge right true (or_intror eq_refl) Fr) as (a & ->); eexists; split; [reflexivity|intros []]).
+      (* both edges run through the node *)
+      destruct (Hpre left Fl) as [El Pl]. destruct (Hpre right Fr) as [Er Pr].
+      cbn [res_along] in Rl, Rr. rewrite Pl in Rl. rewrite Pr in Rr.
+      destruct (can_short_inv _ _ Hcan) as [[Vrk [v ->]]|(Nk & Nne & cs & -> & Hc')].
+      + exfalso. rewrite El in Vl. rewrite Er in Vr.
+        pose proof (valid_key_prefix_end _ _ Vrk Vl) as E1. pose proof (valid_key_prefix_end _ _ Vrk Vr) as E2.
+        rewrite E1, app_nil_r in El. rewrite E2, app_nil_r in Er. rewrite El, Er, slice_lt_irrefl in Hlt. discriminate.
+      + inversion Hc as [| |t0 e Hw Ee Le| |cs0 cs1 Hl Hcs]; subst; [destruct Rl|].
+        remember (skipn (length rk) left) as l' eqn:Dl in *. remember (skipn (length rk) right) as r' eqn:Dr in *.
+        assert (Nl : l' <> []).
+        { intros En. rewrite En, app_nil_r in El. rewrite El in Vl. exact (valid_key_not_nibbles _ Vl Nk). }
+        assert (Nr : r' <> []).
+        { intros En. rewrite En, app_nil_r in Er. rewrite Er in Vr. exact (valid_key_not_nibbles _ Vr Nk). }
+        rewrite El in Vl, Hlt, Hlen, Hu. rewrite Er in Vr, Hlt, Hlen.
+        destruct (valid_key_app_inv _ _ Vl Nl) as [_ Vl']. destruct (valid_key_app_inv _ _ Vr Nr) as [_ Vr'].
+        rewrite slice_lt_app in Hlt. rewrite !app_length in Hlen.
+        destruct (IH (NFull cs0) l' r' Hc' Hc Rl Rr) as [(a & Ea & Hf)|Ee]; auto.
+        * intros r0 v L. specialize (Hu (rk ++ r0) v). rewrite lk_short, strip_app_same in Hu. specialize (Hu L).
+          rewrite !app_length in Hu. lia.
+        * lia.
+        * destruct (Hf I) as (x & ->). left. rewrite Ea. eexists. split; [reflexivity|intros []].
+        * right. rewrite Ee. reflexivity.
+    - (* branch *)
+      inversion Hp as [| |t0 e Hw Ee Le| |cs0 cs1 Hl Hcs]; subst; [destruct Rl|].
+      destruct (can_full_inv _ Hcan) as (L17 & Hch & Hv16 & _).
+      destruct left as [|l0 lr]; [destruct Vl|]. destruct right as [|r0 rr0]; [destruct Vr|].
+      apply valid_key_cons in Vl. apply valid_key_cons in Vr.
+      assert (Hl0 : l0 < 16 /\ valid_key lr).
+      { destruct Vl as [[-> ->]|Vl]; [|exact Vl]. exfalso. apply (can_full_not_len1 _ Hcan Hu). }
+      assert (Hr0 : r0 < 16 /\ valid_key rr0).
+      { destruct Vr as [[-> ->]|Vr]; [|exact Vr]. exfalso. simpl in Hlen. destruct lr; [|discriminate].
+        apply (can_full_not_len1 _ Hcan Hu). }
+      destruct Hl0 as [Hl0 Vlr]. destruct Hr0 as [Hr0 Vrr].
+      rewrite unset_internal_full. unfold child. rewrite res_along_full in Rl, Rr.
+      destruct (nth_error cs0 (N.to_nat l0)) as [ln|] eqn:Eln; [|apply nth_error_None in Eln; lia].
+      destruct (nth_error cs0 (N.to_nat r0)) as [rn|] eqn:Ern; [|apply nth_error_None in Ern; lia].
+      destruct (nth_error cs' (N.to_nat l0)) as [ln'|] eqn:Eln'; [|apply nth_error_None in Eln'; lia].
+      destruct (nth_error cs' (N.to_nat r0)) as [rn'|] eqn:Ern'; [|apply nth_error_None in Ern'; lia].
+      pose proof (Hcs _ _ _ Eln Eln') as Pl. pose proof (Hcs _ _ _ Ern Ern') as Pr.
+      pose proof (Hch _ _ Eln' ltac:(lia)) as Cl. pose proof (Hch _ _ Ern' ltac:(lia)) as Cr.
+      assert (Hul : ulen ln' (length lr)).
+      { intros r1 v L. specialize (Hu (l0 :: r1) v). rewrite lk_full, Eln' in Hu. specialize (Hu L). simpl in Hu. lia. }
+      assert (Hur : ulen rn' (length rr0)).
+      { intros r1 v L. specialize (Hu (r0 :: r1) v). rewrite lk_full, Ern' in Hu. specialize (Hu L). simpl in Hu, Hlen. lia. }
+      assert (Sl : ln = NEmpty \/ inner_shape ln).
+      { destruct (pv_slot_shape _ _ Pl Cl) as [?|[?|[h ->]]]; auto; try contradiction. }
+      assert (Sr : rn = NEmpty \/ inner_shape rn).
+      { destruct (pv_slot_shape _ _ Pr Cr) as [?|[?|[h ->]]]; auto; try contradiction. }
+      apply slice_lt_cons in Hlt.
+      assert (Hfk : exists fk, (if is_empty ln || is_empty rn then Some true else iface_neq l0 r0 ln rn) = Some fk /\
+                      (fk = false -> l0 = r0 /\ inner_shape ln) /\
+                      (fk = true -> l0 = r0 -> ln = NEmpty)).
+      { destruct Sl as [->|Il]; [exists true; cbn; split; [reflexivity|split; [discriminate|auto]]|].
+        destruct Sr as [->|Ir].
+        - exists true. destruct ln; try destruct Il; cbn; (split; [reflexivity|split; [discriminate|]]);
+            intros _ E0; subst r0; rewrite Eln in Ern; discriminate.
+        - exists (negb (N.eqb l0 r0)).
+          split; [destruct ln; try destruct Il; destruct rn; try destruct Ir; reflexivity|].
+          split.
+          + intros E0. apply negb_false_iff in E0. apply N.eqb_eq in E0. auto.
+          + intros E0 E1. subst r0. rewrite N.eqb_refl in E0. discriminate. }
+      destruct Hfk as (fk & -> & Hf0 & Hf1). destruct fk.
+      + (* fork *)
+        left. unfold ui_fork. cbv zeta. unfold child.
+        assert (N1 : forall j, nth_error (clear_range (N.to_nat l0 + 1) (N.to_nat r0) cs0) j = match nth_error cs0 j with
+                  | Some x => Some (if Nat.ltb (N.to_nat l0) j && Nat.ltb j (N.to_nat r0) then NEmpty else x)
+                  | None => None end).
+        { intros j. rewrite clear_range_nth. destruct (nth_error cs0 j); [|reflexivity].
+          replace (Nat.leb (N.to_nat l0 + 1) j) with (Nat.ltb (N.to_nat l0) j); [reflexivity|].
+          destruct (Nat.ltb_spec (N.to_nat l0) j); symmetry; [apply Nat.leb_le|apply Nat.leb_gt]; lia. }
+        rewrite N1, Eln, Nat.ltb_irrefl. cbn [andb].
+        destruct (N.eq_dec l0 r0) as [E0|Hne].
+        * (* both edges point to the same nil slot *)
+          subst r0. pose proof (Hf1 eq_refl eq_refl) as En. subst ln. cbn [unset].
+          destruct (apply_act_some (clear_range (N.to_nat l0 + 1) (N.to_nat l0) cs0) l0 (UKeep NEmpty)) as [cs2 A1];
+            [rewrite clear_range_length; lia|]. rewrite A1.
+          destruct (apply_act_nth _ _ _ _ A1) as [L2 N2]. rewrite clear_range_length in L2.
+          rewrite N2, Nat.eqb_refl. cbn [act_node unset].
+          destruct (apply_act_some cs2 l0 (UKeep NEmpty)) as [cs3 A2]; [lia|]. rewrite A2.
+          eexists. split; [reflexivity|]. intros _. eauto.
+        * destruct (unset_progress H H_len ln' ln lr false Cl Pl Rl Hul (or_intror Vlr)) as (a1 & -> & _).
+          destruct (apply_act_some (clear_range (N.to_nat l0 + 1) (N.to_nat r0) cs0) l0 a1) as [cs2 A1];
+            [rewrite clear_range_length; lia|]. rewrite A1.
+          destruct (apply_act_nth _ _ _ _ A1) as [L2 N2]. rewrite clear_range_length in L2.
+          rewrite N2. replace (Nat.eqb (N.to_nat r0) (N.to_nat l0)) with false by (symmetry; apply Nat.eqb_neq; lia).
+          rewrite N1, Ern. rewrite Nat.ltb_irrefl, andb_false_r.
+          destruct (unset_progress H H_len rn' rn rr0 true Cr Pr Rr Hur (or_intror Vrr)) as (a2 & -> & _).
+          destruct (apply_act_some cs2 r0 a2) as [cs3 A2]; [lia|]. rewrite A2.
+          eexists. split; [reflexivity|]. intros _. eauto.
+      + (* descend *)
+        destruct (Hf0 eq_refl) as [<- Il]. rewrite Ern in Eln. inversion Eln; subst rn.
+        rewrite Ern' in Eln'. inversion Eln'; subst rn'.
+        destruct Cl as [->|Ccl]; [apply pv_empty_r in Pl; subst ln; destruct Il|].
+        destruct Hlt as [?|[_ Hlt]]; [lia|]. simpl in Hlen.
+        rewrite Forall_forall in IH.
+        destruct (IH ln' (nth_error_In _ _ Ern') ln lr rr0 Ccl Pl Rl Rr Hul ltac:(lia) Vlr Vrr Hlt) as [(a & -> & _) | ->].
+        * left. destruct (apply_act_some cs0 l0 a) as [cs2 ->]; [lia|]. eexists. split; [reflexivity|]. intros _. eauto.
+        * right. reflexivity.
+  Qed.
+End Progress2.
+
+Section Conv.
+  Variable H : list N -> list N.
+  Hypothesis H_len : forall x, length (H x) = 32%nat.
+  Notation pv := (pv H).
+
+  (* the converse simulation: where the full trie accepts an insertion, the partial tree
+     does the same or stops at a hash node (MissingNodeError) *)
+  Lemma insert_sim_conv : forall fuel p s prefix key v d s' ev',
+    pv p s -> insert no_resolve fuel s prefix key (NValue v) = TOk (d, s', ev') ->
+    (exists p' ev, insert no_resolve fuel p prefix key (NValue v) = TOk (d, p', ev) /\ pv p' s') \/
+    insert no_resolve fuel p prefix key (NValue v) = TErr EMissing.
+  Proof.
+    induction fuel as [|f IH]; intros p s prefix key v d s' ev' Hp E; [discriminate|].
+    destruct key as [|k0 kr].
+    - left. destruct p as [|v0|k c|cs|h].
+      + apply pv_empty_inv in Hp. subst s. cbn in E |- *. inversion E; subst. eexists _, _. split; [reflexivity|constructor].
+      + apply pv_value_inv in Hp. subst s. cbn in E |- *. inversion E; subst. eexists _, _. split; [reflexivity|constructor].
+      + destruct (pv_short_inv _ _ _ _ Hp) as (c' & -> & _). cbn in E |- *. inversion E; subst. eexists _, _. split; [reflexivity|constructor].
+      + destruct (pv_full_inv _ _ _ Hp) as (cs' & -> & _). cbn in E |- *. inversion E; subst. eexists _, _. split; [reflexivity|constructor].
+      + pose proof (pv_hash_inner _ _ _ Hp) as Hi. destruct s; try destruct Hi; cbn in E |- *; inversion E; subst;
+          eexists _, _; (split; [reflexivity|constructor]).
+    - destruct p as [|v0|nk nv|cs|h].
+      + left. apply pv_empty_inv in Hp. subst s. cbn in E |- *. inversion E; subst. eexists _, _. split; [reflexivity|].
+        constructor. constructor.
+      + apply pv_value_inv in Hp. subst s. discriminate.
+      + destruct (pv_short_inv _ _ _ _ Hp) as (nv' & -> & Hc).
+        rewrite insert_short_unfold in E |- * by discriminate. cbv zeta in E |- *.
+        destruct (Nat.eqb (prefix_len (k0 :: kr) nk) (length nk)).
+        * destruct (insert no_resolve f nv' _ _ _) as [[[d0 nn'] ev0']|e] eqn:Ei; [|discriminate].
+          destruct (IH _ _ _ _ _ _ _ _ Hc Ei) as [(nn & ev0 & -> & Hnn)| ->]; [left|right; reflexivity].
+          destruct d0; inversion E; subst; eexists _, _; (split; [reflexivity|]); constructor; assumption.
+        * left. destruct (nth_error nk _) as [a|]; [|discriminate]. destruct (nth_error (k0 :: kr) _) as [b|]; [|discriminate].
+          rewrite (surjective_pairing (insert_nil _ (skipn _ nk) nv')) in E.
+          rewrite (surjective_pairing (insert_nil _ (skipn _ nk) nv)).
+          rewrite (surjective_pairing (insert_nil _ (skipn _ (k0 :: kr)) (NValue v))) in E |- *.
+          rewrite !insert_nil_fst in E |- *.
+          destruct (set_child empty17 a (inil _ nv')) as [cs1'|] eqn:S1'; [|discriminate].
+          destruct (set_child cs1' b _) as [cs2'|] eqn:S2'; [|discriminate].
+          pose proof (set_nth_lt _ _ _ _ S1') as La. pose proof (set_nth_lt _ _ _ _ S2') as Lb.
+          destruct (set_nth_some (N.to_nat a) (inil (skipn (prefix_len (k0 :: kr) nk + 1) nk) nv) empty17 La) as [cs1 S1].
+          unfold set_child. rewrite S1.
+          destruct (pvs_set H _ _ _ _ _ _ (pvs_empty17 H) (pv_inil H (skipn (prefix_len (k0 :: kr) nk + 1) nk) _ _ Hc) S1) as (cs1x & S1x & Hcs1).
+          unfold set_child in S1', S1x. rewrite S1' in S1x. inversion S1x; subst cs1x.
+          destruct Hcs1 as [Lc1 _].
+          destruct (set_nth_some (N.to_nat b) (inil (skipn (prefix_len (k0 :: kr) nk + 1) (k0 :: kr)) (NValue v)) cs1 ltac:(lia)) as [cs2 S2].
+          rewrite S2.
+          assert (Hcs1' : pvs H cs1 cs1').
+          { destruct (pvs_set H _ _ _ _ _ _ (pvs_empty17 H) (pv_inil H (skipn (prefix_len (k0 :: kr) nk + 1) nk) _ _ Hc) S1) as (x & Sx & Hx).
+            unfold set_child in Sx. rewrite S1' in Sx. inversion Sx; subst x. exact Hx. }
+          destruct (pvs_set H _ _ _ _ _ _ Hcs1' (pv_inil H (skipn (prefix_len (k0 :: kr) nk + 1) (k0 :: kr)) _ _ (pv_value H v)) S2) as (x & Sx & Hcs2).
+          unfold set_child in Sx, S2'. rewrite S2' in Sx. inversion Sx; subst x.
+          destruct (Nat.eqb (prefix_len (k0 :: kr) nk) 0); inversion E; subst; eexists _, _; (split; [reflexivity|]);
+            destruct Hcs2; repeat constructor; assumption.
+      + destruct (pv_full_inv _ _ _ Hp) as (cs' & -> & Hcs).
+        rewrite insert_full_unfold' in E |- *. unfold child in *.
+        destruct (nth_error cs' (N.to_nat k0)) as [c'|] eqn:Ec'; [|discriminate].
+        destruct Hcs as [Lcs Hn].
+        destruct (nth_error cs (N.to_nat k0)) as [c|] eqn:Ec.
+        2: { apply nth_error_None in Ec. assert (N.to_nat k0 < length cs')%nat by (apply nth_error_Some; congruence). lia. }
+        destruct (insert no_resolve f c' _ _ _) as [[[d0 nn'] ev0']|e] eqn:Ei; [|discriminate].
+        destruct (IH _ _ _ _ _ _ _ _ (Hn _ _ _ Ec Ec') Ei) as [(nn & ev0 & -> & Hnn)| ->]; [left|right; reflexivity].
+        destruct d0.
+        * destruct (set_child cs' k0 nn') as [cs2'|] eqn:S1'; [|discriminate].
+          pose proof (set_nth_lt _ _ _ _ S1') as La.
+          destruct (set_nth_some (N.to_nat k0) nn cs ltac:(lia)) as [cs2 S1]. unfold set_child. rewrite S1.
+          destruct (pvs_set H cs cs' k0 nn nn' cs2 (conj Lcs Hn) Hnn S1) as (x & Sx & Hcs2).
+          rewrite S1' in Sx. inversion Sx; subst x.
+          inversion E; subst. eexists _, _. split; [reflexivity|]. destruct Hcs2. constructor; assumption.
+        * inversion E; subst. eexists _, _. split; [reflexivity|]. constructor; assumption.
+      + right. reflexivity.
+  Qed.
+
+  Lemma reinsert_sim_conv keys : forall values p s s3,
+    pv p s -> Forall (fun v => v <> []) values ->
+    reinsert s keys values = Rok s3 ->
+    (exists p3, reinsert p keys values = Rok p3 /\ pv p3 s3) \/ reinsert p keys values = Rerr RMissingNode.
+  Proof.
+    induction keys as [|k kr IH]; intros values p s s3 Hp HV E.
+    - inversion E; subst. left. exists p. split; [reflexivity|exact Hp].
+    - destruct values as [|v vr]; [discriminate|]. cbn [reinsert] in E |- *.
+      inversion HV as [|? ? Hv HV']; subst. unfold update in E |- *. cbv zeta in E |- *.
+      destruct v as [|b0 v]; [congruence|].
+      destruct (insert no_resolve _ s [] _ _) as [[[d s1] ev']|e] eqn:Ei; [|discriminate].
+      destruct (insert_sim_conv _ _ _ _ _ _ _ _ _ Hp Ei) as [(p1 & ev & -> & Hp1)| ->]; [|right; reflexivity].
+      apply (IH vr p1 s1 s3 Hp1 HV' E).
+  Qed.
+End Conv.
+
+Lemma is_prefix_refl k : is_prefix_of k k = true.
+Proof. pose proof (is_prefix_strip k k) as Sp. rewrite strip_self in Sp. destruct Sp as [Sp _]. exact Sp. Qed.
+
+Lemma prefix_len_full (a b : list N) : prefix_len a b = length b -> is_prefix_of b a = true /\ a = b ++ skipn (length b) a.
+Proof.
+  revert a. induction b as [|y b IH]; intros a E.
+  - split; [reflexivity|]. reflexivity.
+  - destruct a as [|x a]; [discriminate|]. simpl in E. destruct (N.eqb_spec x y) as [->|]; [|discriminate].
+    destruct (IH a ltac:(lia)) as [P1 P2]. split.
+    + pose proof (is_prefix_strip (y :: b) (y :: a)) as Sp. simpl strip in Sp. rewrite N.eqb_refl in Sp.
+      pose proof (is_prefix_strip b a) as Sp'. destruct (strip b a); [destruct Sp as [Sp _]; exact Sp|congruence].
+    + simpl. f_equal. exact P2.
+Qed.
+
+(* after a successful insertion the path of the inserted key is resolved; an insertion that
+   reports "not dirty" returns its input *)
+Lemma insert_res : forall fuel p prefix key v d p' ev,
+  insert no_resolve fuel p prefix key (NValue v) = TOk (d, p', ev) ->
+  res_along p' key /\ (d = false -> p' = p).
+Proof.
+  induction fuel as [|f IH]; intros p prefix key v d p' ev E; [discriminate|].
+  destruct key as [|k0 kr].
+  - destruct p; cbn in E; inversion E; subst; (split; [exact I|]); try discriminate.
+    intros Hd. apply negb_false_iff in Hd. apply bytes_eqb_eq in Hd. congruence.
+  - destruct p as [|v0|nk nv|cs|h].
+    + cbn in E. inversion E; subst. split; [|discriminate]. cbn [res_along]. rewrite is_prefix_refl. exact I.
+    + discriminate.
+    + rewrite insert_short_unfold in E by discriminate. cbv zeta in E.
+      destruct (Nat.eqb (prefix_len (k0 :: kr) nk) (length nk)) eqn:Em.
+      * apply Nat.eqb_eq in Em. destruct (prefix_len_full _ _ Em) as [Pf _]. rewrite Em in E.
+        destruct (insert no_resolve f nv _ _ _) as [[[d0 nn] ev0]|e] eqn:Ei; [|discriminate].
+        destruct (IH _ _ _ _ _ _ _ Ei) as [R Hd0].
+        destruct d0; inversion E; subst.
+        -- split; [|discriminate]. cbn [res_along]. rewrite Pf. exact R.
+        -- split; [|reflexivity]. cbn [res_along]. rewrite Pf. rewrite <- (Hd0 eq_refl). exact R.
+      * destruct (nth_error nk _) as [a|] eqn:Ea; [|discriminate]. destruct (nth_error (k0 :: kr) _) as [b|] eqn:Eb; [|discriminate].
+        rewrite (surjective_pairing (insert_nil _ (skipn _ nk) nv)) in E.
+        rewrite (surjective_pairing (insert_nil _ (skipn _ (k0 :: kr)) (NValue v))) in E.
+        rewrite !insert_nil_fst in E.
+        destruct (set_child empty17 a _) as [cs1|] eqn:S1; [|discriminate].
+        destruct (set_child cs1 b _) as [cs2|] eqn:S2; [|discriminate].
+        unfold set_child in S2. destruct (set_nth_spec _ _ _ _ S2) as [_ N2].
+        set (m := prefix_len (k0 :: kr) nk) in *.
+        assert (Hsplit : k0 :: kr = firstn m (k0 :: kr) ++ b :: skipn (m + 1) (k0 :: kr)).
+        { rewrite <- (firstn_skipn m (k0 :: kr)) at 1. f_equal.
+          assert (Hs : skipn m (k0 :: kr) = b :: skipn (m + 1) (k0 :: kr)).
+          { clear - Eb. revert Eb. generalize (k0 :: kr). induction m as [|m IHm]; intros l Eb; destruct l; try discriminate.
+            - simpl in Eb. inversion Eb. reflexivity.
+            - simpl. apply IHm. exact Eb. }
+          exact Hs. }
+        assert (Rb : res_along (NFull cs2) (b :: skipn (m + 1) (k0 :: kr))).
+        { rewrite res_along_full, N2, Nat.eqb_refl. unfold inil. destruct (skipn (m + 1) (k0 :: kr)) eqn:Es; [exact I|].
+          cbn [res_along]. rewrite is_prefix_refl. exact I. }
+        assert (Es : strip (firstn m (k0 :: kr)) (k0 :: kr) = Some (b :: skipn (m + 1) (k0 :: kr)))
+          by (apply strip_some; exact Hsplit).
+        pose proof (is_prefix_strip (firstn m (k0 :: kr)) (k0 :: kr)) as Sp. rewrite Es in Sp. destruct Sp as [Sp1 Sp2].
+        destruct (Nat.eqb m 0) eqn:Em0; inversion E; subst p' d; (split; [|discriminate]).
+        -- apply Nat.eqb_eq in Em0. rewrite Em0 in Sp2, Rb. simpl in Sp2, Rb. rewrite Sp2. exact Rb.
+        -- cbn [res_along]. rewrite Sp1, Sp2. exact Rb.
+    + rewrite insert_full_unfold' in E. unfold child in E.
+      destruct (nth_error cs (N.to_nat k0)) as [c|] eqn:Ec; [|discriminate].
+      destruct (insert no_resolve f c _ _ _) as [[[d0 nn] ev0]|e] eqn:Ei; [|discriminate].
+      destruct (IH _ _ _ _ _ _ _ Ei) as [R Hd0].
+      destruct d0.
+      * destruct (set_child cs k0 nn) as [cs2|] eqn:S1; [|discriminate]. inversion E; subst. split; [|discriminate].
+        unfold set_child in S1. destruct (set_nth_spec _ _ _ _ S1) as [_ N2].
+        rewrite res_along_full, N2, Nat.eqb_refl. exact R.
+      * inversion E; subst. split; [|reflexivity]. rewrite res_along_full, Ec. rewrite <- (Hd0 eq_refl). exact R.
+    + cbn in E. discriminate.
+Qed.
+
+Lemma reinsert_res keys : forall values p p3 last,
+  Forall (fun v => v <> []) values ->
+  reinsert p keys values = Rok p3 -> last_opt keys = Some last -> res_along p3 (keybytes_to_hex last).
+Proof.
+  induction keys as [|k kr IH]; intros values p p3 last HV E Hl; [discriminate|].
+  destruct values as [|v vr]; [discriminate|]. cbn [reinsert] in E.
+  inversion HV as [|? ? Hv HV']; subst. unfold update in E. cbv zeta in E. destruct v as [|b0 v]; [congruence|].
+  destruct (insert no_resolve _ p [] _ _) as [[[d p1] ev]|e] eqn:Ei; [|discriminate].
+  destruct kr as [|k2 kr'].
+  - simpl in Hl. inversion Hl; subst last. destruct vr; cbn [reinsert] in E; inversion E; subst.
+    all: apply (insert_res _ _ _ _ _ _ _ _ Ei).
+  - apply (IH vr p1 p3 last HV' E). exact Hl.
+Qed.
+
+(* hasRightElement on a resolved path of a well-formed tree never panics *)
+Lemma has_right_total H s : forall p key,
+  pv H p s ->
+  (s = NEmpty \/ (exists v, s = NValue v) \/ (pwf s /\ valid_key key)) ->
+  res_along p key -> exists b, has_right p key = TOk b.
+Proof.
+  induction s as [|v|nk c' IH|cs' IH|h] using node_ind'; intros p key Hp Hs Hr.
+  - apply pv_empty_r in Hp. subst. eexists; reflexivity.
+  - apply pv_value_r in Hp. subst. eexists; reflexivity.
+  - destruct Hs as [?|[[? ?]|[Hw Vk]]]; try discriminate.
+    inversion Hp as [| |t0 e Hw0 Ee Le|k0 c0 x Hc|]; subst; [destruct Hr|].
+    cbn [has_right res_along] in *. pose proof (is_prefix_strip nk key) as Sp.
+    destruct (strip nk key) as [rest|] eqn:E.
+    + destruct Sp as [S1 S2]. rewrite S1 in *. rewrite S2 in *. cbn [negb]. apply strip_some in E. subst key.
+      apply (IH c0 rest Hc); [|exact Hr].
+      inversion Hw as [? v Vk0 Sk Hv|? ? Nk Ne Sk Hc'|]; subst; [right; left; eauto|right; right].
+      split; [exact Hc'|]. apply (valid_key_app_inv _ _ Vk). intros ->. rewrite app_nil_r in Vk.
+      exact (valid_key_not_nibbles _ Vk Nk).
+    + rewrite Sp. cbn [negb]. eexists; reflexivity.
+  - destruct Hs as [?|[[? ?]|[Hw Vk]]]; try discriminate.
+    inversion Hp as [| |t0 e Hw0 Ee Le| |cs0 cs1 Hl Hcs]; subst; [destruct Hr|].
+    destruct key as [|k0 kr]; [destruct Vk|]. rewrite has_right_full. rewrite res_along_full in Hr.
+    destruct (any_from 0 (N.to_nat k0 + 1) 16 cs0); [eexists; reflexivity|].
+    inversion Hw as [| |? L17 C V]; subst. pose proof (valid_key_hd_le _ _ Vk) as Hk0.
+    destruct (nth_error cs0 (N.to_nat k0)) as [c|] eqn:Ec; [|apply nth_error_None in Ec; lia].
+    destruct (nth_error cs' (N.to_nat k0)) as [c'|] eqn:Ec'; [|apply nth_error_None in Ec'; lia].
+    rewrite Forall_forall in IH. apply (IH c' (nth_error_In _ _ Ec') c kr (Hcs _ _ _ Ec Ec')); [|exact Hr].
+    apply valid_key_cons in Vk. destruct Vk as [[-> ->]|[Hlt Vr]].
+    + change (N.to_nat 16) with 16%nat in Ec'. destruct (V c' Ec') as [->|(v & -> & _)]; [left; reflexivity|right; left; eauto].
+    + destruct (C _ c' Ec' ltac:(lia)) as [->|Hc']; [left; reflexivity|right; right; auto].
+  - destruct Hs as [?|[[? ?]|[Hw _]]]; try discriminate. inversion Hw.
+Qed.
+
+Lemma reinsert_full_ex keys : forall values s,
+  (s = NEmpty \/ pwf s) -> length keys = length values ->
+  Forall (fun k => forallb byteb k = true /\ small (keybytes_to_hex k)) keys ->
+  Forall val_ok values ->
+  exists s3, reinsert s keys values = Rok s3 /\ (s3 = NEmpty \/ pwf s3).
+Proof.
+  induction keys as [|k kr IH]; intros values s Hs El HK HV.
+  - exists s. split; [reflexivity|exact Hs].
+  - destruct values as [|v vr]; [discriminate|]. cbn [reinsert].
+    inversion HK as [|? ? [Hb Hsm] HK']; subst. inversion HV as [|? ? Hv HV']; subst.
+    unfold update. cbv zeta. destruct v as [|b0 v]; [destruct Hv; congruence|].
+    set (hk0 := keybytes_to_hex k) in *.
+    assert (Vk : valid_key hk0) by (apply keybytes_to_hex_valid; exact Hb).
+    assert (Hwf : wfpos s hk0).
+    { right. split; [exact Vk|]. destruct Hs as [->|Hp]; [constructor|apply pwf_wfn; exact Hp]. }
+    destruct (insert_spec no_resolve _ s [] hk0 (b0 :: v) (ops_fuel_ok hk0) Hwf)
+      as (d & s1 & ev & Ei & P1 & _).
+    rewrite Ei.
+    assert (Hz : szi s) by (destruct Hs as [->|Hp]; [exact I|apply pwf_szi; exact Hp]).
+    destruct (insert_szi _ _ _ _ _ _ _ _ Hz Hv Hsm Ei) as [Hz1 _].
+    assert (Hs1 : s1 = NEmpty \/ pwf s1).
+    { apply wfn_szi_pwf; [|exact Hz1]. destruct P1 as [[-> _]|[_ Hw1]]; [destruct Vk|exact Hw1]. }
+    apply (IH vr s1 Hs1); auto.
 Qed.
